@@ -50,25 +50,102 @@ def err(e):
     return "err:" + type(e).__name__
 
 
+# ------------------------------------------------------------------ harness errors vs. results that cannot be evaluated
+class HarnessError(Exception):
+    """A failure while the harness builds its OWN inputs (frames, bin arguments, reference values): a bug of the
+    harness -> infrastructure error (exit 2).  Any other exception raised while a result of the implementation is
+    taken apart means the implementation returned something of an unexpected shape: a failure on that input."""
+
+
+def builder(fn):
+    import functools
+
+    @functools.wraps(fn)
+    def wrapped(*a, **kw):
+        try:
+            return fn(*a, **kw)
+        except HarnessError:
+            raise
+        except Exception as e:        # noqa: BLE001
+            raise HarnessError(f"harness: {fn.__name__}: {type(e).__name__}: {e}") from e
+    return wrapped
+
+
+def _where(e):
+    import traceback
+    fr = [f for f in traceback.extract_tb(e.__traceback__) if f.filename.endswith("c14.py")]
+    return f"c14.py:{fr[-1].lineno} `{(fr[-1].line or '').strip()[:90]}`" if fr else "?"
+
+
 # ------------------------------------------------------------------ building the real objects
+def full_names(case):
+    """Names of all index levels of a collective case in index order: the extra levels (None = an unnamed level) with the
+    cycle axis `cycle_number` inserted at `cyc_pos` (default: last)."""
+    levels = list(case.get("levels") or [])
+    pos = case.get("cyc_pos")
+    if pos is None:
+        pos = len(levels)
+    return levels[:pos] + ["cycle_number"] + levels[pos:]
+
+
+def group_names(case):
+    """The levels a histogram is grouped by: every NAMED level but `axis`; none when axis is None (one histogram)."""
+    axis = case.get("axis")
+    if axis is None or not case.get("levels"):
+        return []
+    return [n for n in full_names(case) if n != axis and n is not None]
+
+
+@builder
+def cycle_labels(case):
+    rows = case["rows"]
+    if case.get("idx"):
+        return list(case["idx"])
+    if not case.get("levels"):
+        return list(range(len(rows)))
+    counter, out = {}, []
+    for k in case["keys"]:
+        k = tuple(k)
+        counter[k] = counter.get(k, -1) + 1
+        out.append(counter[k])
+    return out
+
+
+@builder
+def level_arrays(case):
+    """name position -> list of labels, for every level of the index (in index order)."""
+    levels = list(case.get("levels") or [])
+    pos = case.get("cyc_pos")
+    if pos is None:
+        pos = len(levels)
+    cols = [[k[j] for k in case["keys"]] for j in range(len(levels))]
+    return cols[:pos] + [cycle_labels(case)] + cols[pos:]
+
+
+@builder
+def row_keys(case):
+    """Per row the group key (tuple over group_names)."""
+    g = group_names(case)
+    if not g:
+        return [()] * len(case["rows"])
+    names, arrays = full_names(case), level_arrays(case)
+    sel = [names.index(n) for n in g]
+    return [tuple(arrays[j][i] for j in sel) for i in range(len(case["rows"]))]
+
+
 def group_keys(case):
-    """Sorted distinct group keys (tuples) of a case, [()] when the collective has no extra levels."""
-    keys = case.get("keys")
-    if not keys:
-        return [()]
-    return sorted({tuple(k) for k in keys})
+    """Sorted distinct group keys (tuples) of a case, [()] when the result is one histogram."""
+    return sorted(set(row_keys(case)))
 
 
 def rows_of_group(case, key):
-    keys = case.get("keys")
-    if not keys:
-        return list(case["rows"])
-    return [r for r, k in zip(case["rows"], keys) if tuple(k) == key]
+    return [r for r, k in zip(case["rows"], row_keys(case)) if k == key]
 
 
+@builder
 def make_frame(case):
     """The DataFrame of a collective case.  rows = [from, to, cycles]; form 'rm' hands the real code
-    range/mean columns instead; extra index levels from `levels`/`keys`, the cycle axis is `cycle_number`."""
+    range/mean columns instead; extra index levels from `levels`/`keys` (any order, `cyc_pos`), the cycle axis is `cycle_number`."""
     rows = case["rows"]
     fr = np.asarray([r[0] for r in rows], dtype=float)
     to = np.asarray([r[1] for r in rows], dtype=float)
@@ -77,18 +154,12 @@ def make_frame(case):
     else:
         data = {"from": fr, "to": to}
     if case.get("cycles"):
-        data["cycles"] = [float(r[2]) for r in rows]
-    levels = case.get("levels") or []
-    if levels:
-        counter = {}
-        arrays = [[] for _ in levels] + [[]]
-        for i, k in enumerate(case["keys"]):
-            k = tuple(k)
-            counter[k] = counter.get(k, -1) + 1
-            for a, v in zip(arrays, k):
-                a.append(v)
-            arrays[-1].append(case["idx"][i] if case.get("idx") else counter[k])
-        index = pd.MultiIndex.from_arrays(arrays, names=list(levels) + ["cycle_number"])
+        cyc = [float(r[2]) for r in rows]
+        if case.get("int_cycles"):
+            cyc = np.asarray(cyc, dtype=np.int64)
+        data["cycles"] = cyc
+    if case.get("levels"):
+        index = pd.MultiIndex.from_arrays(level_arrays(case), names=full_names(case))
     else:
         # `idx`: explicit labels, possibly repeated (pd.concat of recorded blocks, each numbered from 0)
         index = pd.Index(case["idx"] if case.get("idx") else range(len(rows)),
@@ -96,10 +167,20 @@ def make_frame(case):
     return pd.DataFrame(data, index=index)
 
 
+@builder
 def bins_arg(b):
     t = b["t"]
     if t == "count":
         return int(b["n"])
+    if t == "npcount":
+        return np.int64(b["n"])
+    if t == "count2":
+        return [int(b["nx"]), int(b["ny"])]
+    if t in ("edges2", "lists2"):
+        ex, ey = [float(x) for x in b["ex"]], [float(x) for x in b["ey"]]
+        return [ex, ey] if t == "lists2" else [np.asarray(ex), np.asarray(ey)]
+    if t in ("iv_gap", "iv_overlap"):
+        return pd.IntervalIndex.from_tuples([tuple(x) for x in b["iv"]])
     e = [float(x) for x in b["e"]]
     if t == "edges":
         return e
@@ -107,6 +188,8 @@ def bins_arg(b):
         return np.asarray(e)
     if t == "iv":
         return pd.IntervalIndex.from_breaks(e)
+    if t == "ivleft":
+        return pd.IntervalIndex.from_breaks(e, closed="left")
     if t == "ia":
         return pd.arrays.IntervalArray.from_breaks(e)
     raise ValueError(t)
@@ -116,16 +199,25 @@ def edges_of_index(ix):
     return [float(ix.left[0])] + [float(x) for x in ix.right]
 
 
-def split_result(case, res, nbin_levels):
+def edges_of_level(ix):
+    """Edges of an interval level whose classes repeat (MultiIndex from_product): distinct classes in order of appearance."""
+    seen, ivs = set(), []
+    for iv in ix:
+        k = (float(iv.left), float(iv.right))
+        if k not in seen:
+            seen.add(k)
+            ivs.append(k)
+    return [ivs[0][0]] + [k[1] for k in ivs]
+
+
+def split_result(case, res, nbin_levels=None):
     """Per group key (sorted) the sub-series of a histogram result."""
-    levels = case.get("levels") or []
+    g = group_names(case)
+    if not g:
+        return {(): res}
     out = {}
-    if not levels or case.get("axis") is None:
-        out[()] = res
-        return out
     for key in group_keys(case):
-        sub = res.xs(key if len(key) > 1 else key[0], level=list(levels) if len(levels) > 1 else levels[0])
-        out[key] = sub
+        out[key] = res.xs(key if len(g) > 1 else key[0], level=g if len(g) > 1 else g[0])
     return out
 
 
@@ -138,6 +230,20 @@ def np_class(edges, v):
     if n >= 1 and v == edges[n] and edges[n - 1] <= v:
         return n - 1
     return None
+
+
+def ref_share(tl, tr, last, l, r):
+    """Reference for the oracle: fraction of the source class (l, r] that the target class (tl, tr] receives - linear for a
+    class of positive width, the whole content of a zero-width class goes to the class numpy's rule puts its point in."""
+    if l < r:
+        return max(0.0, min(tr, r) - max(tl, l)) / (r - l) if (l < tr and tl < r) else 0.0
+    return 1.0 if (tl <= r and (r < tr or (last and r <= tr))) else 0.0
+
+
+def ref_rebin(src, breaks):
+    n = len(breaks) - 1
+    return [sum(s[2] * ref_share(breaks[j], breaks[j + 1], j == n - 1, s[0], s[1]) for s in src if s[2] is not None and s[2] == s[2])
+            for j in range(n)]
 
 
 # ------------------------------------------------------------------ generators
@@ -163,8 +269,13 @@ def gen_rows(rng, n, with_cycles, small=False):
     return rows
 
 
+def ulp(x, up):
+    return float(np.nextafter(x, math.inf if up else -math.inf))
+
+
 def gen_edges(rng, rows, two_d):
-    """Edge lists that put values exactly on edges, irregular widths, a single class, a zero-width class."""
+    """Edge lists that put values exactly on edges (or one ulp beside them), irregular widths, a single class, a zero-width
+    class (the LAST class of zero width is the one numpy fills: it holds the values equal to the last edge)."""
     vals = sorted({abs(r[0] - r[1]) for r in rows} | ({(r[0] + r[1]) / 2 for r in rows} if two_d else set()))
     style = rng.random()
     if style < 0.2:                                   # one class
@@ -175,9 +286,21 @@ def gen_edges(rng, rows, two_d):
     e = sorted(set(rng.sample(pool, min(len(pool), k + 1))))
     if len(e) < 2:
         e = [e[0], e[0] + 1.0]
-    if style > 0.93 and len(e) >= 2:                  # a zero-width class
+    if 0.80 < style <= 0.86:                          # an edge one ulp beside a value
+        j = rng.randrange(len(e))
+        e[j] = ulp(e[j], rng.random() < 0.5)
+        e = sorted(set(e))
+        if len(e) < 2:
+            e = [e[0], e[0] + 1.0]
+    if style > 0.93:                                  # a zero-width class
         j = rng.randrange(len(e))
         e.insert(j, e[j])
+    elif style > 0.86:                                # the last class has zero width, at a value where possible
+        inside = [v for v in vals if v > e[0]]
+        if inside and rng.random() < 0.8:
+            top = rng.choice(inside)
+            e = [x for x in e if x < top] + [top]
+        e.append(e[-1])
     return e
 
 
@@ -194,6 +317,28 @@ def gen_levels(rng, n):
     return levels, keys
 
 
+def gen_layout(rng, n):
+    """Index layout of a histogram case: extra levels in any position around the cycle axis, the axis to aggregate along
+    chosen among ALL levels (or None: one histogram over everything), possibly one unnamed level (never grouped by)."""
+    levels, keys = gen_levels(rng, n)
+    if not levels:
+        return {"levels": None, "keys": None, "axis": None}
+    lay = {"levels": list(levels), "keys": keys}
+    if rng.random() < 0.5:
+        lay["cyc_pos"] = rng.randint(0, len(levels))
+    if len(levels) == 2 and rng.random() < 0.25:
+        lay["levels"][rng.randrange(2)] = None        # an unnamed level
+    named = [lv for lv in lay["levels"] if lv is not None]
+    u = rng.random()
+    if u < 0.2:
+        lay["axis"] = None
+    elif u < 0.45 and len(named) >= 1:
+        lay["axis"] = rng.choice(named)               # aggregate along an extra level: groups = the other levels + cycle_number
+    else:
+        lay["axis"] = "cycle_number"
+    return lay
+
+
 def gen_idx(rng, n):
     """Cycle labels with repetitions: blocks that restart at 0 (pd.concat of recordings) or a few random labels."""
     if n < 2 or rng.random() < 0.55:
@@ -204,6 +349,10 @@ def gen_idx(rng, n):
     return [rng.randint(0, max(1, n // 2)) for _ in range(n)]
 
 
+def integral(vals):
+    return all(v is not None and float(v) == int(v) and abs(v) < 2 ** 40 for v in vals)
+
+
 class C14(Prop):
     ID = "C14"
     SOURCES = SOURCES
@@ -212,36 +361,57 @@ class C14(Prop):
         "collective_consistency", "R_fillna", "rangemean_roundtrip", "fromto_roundtrip", "fromto_roundtrip_id",
         "scale_equivariant", "shift_equivariant", "histogram_rm_consistency", "histogram_ft_consistency",
         "histogram_exactly_one_class", "histogram_partition", "histogram2d_partition", "range_hist_is_marginal",
-        "rebin_conserves_total", "rebin_zero_width_class_lost", "rebin_same_binning_id", "rebin_compose_literal_false",
-        "rebin_compose_conserves_total", "rebin_compose_of_refines", "rebin_compose_of_breaks_subset",
+        "count_histogram_partition", "count_histogram2d_partition", "count_fromto_histogram_partition",
+        "rebin_conserves_total", "rebin_zero_width_class", "rebin_zero_width_class_kept", "rebinN_conserves_total",
+        "rebin_same_binning_id", "rebin_same_binning_id_point_last", "rebin_compose_literal_false",
+        "rebin_compose_conserves_total", "rebin_compose_of_kap", "rebin_compose_of_refines", "rebin_compose_of_breaks_subset",
+        "rebin_compose_of_target_coarsens",
         "rebin2d_cell_is_product", "rebin2d_conserves_total", "rebin2d_by_level_name",
         "combine_sum_conserves", "rebin_nan_default_marks_unoccupied", "rebin_nan_default_conserves_total",
-        "combine_sum_conserves_optional", "rebin_then_combine_conserves")]
+        "combine_sum_conserves_optional", "rebin_then_combine_conserves", "hist_rebin_combine_conserves")]
     PARTIAL = {}
     RULE = ("case kinds: coll (rows from/to/cycles or range/mean; derived quantities; scale/shift by scalar or Series), "
-            "hist (range_histogram / histogram / recorder histogram with edges, class count, IntervalIndex/IntervalArray, "
-            "one class, zero-width class, values exactly on edges, extra index levels with axis=), lh (LoadHistogram "
-            "range/mean and from/to matrices: mids, scale, shift), rebin (arbitrary source classes -> breaks / class "
-            "count / single interval; twice), combine (sum).  All numbers dyadic so that + - x are exact; model lines "
-            "are compared bit-exactly except class contents of rebin/combine (relative 1e-12, summation order).  "
+            "hist (range_histogram / histogram / recorder histogram with edges, class count, [ex, ey] / [nx, ny], IntervalIndex/IntervalArray "
+            "(right- or left-closed, with gaps/overlaps: must be rejected), one class, zero-width class, values exactly on edges or one ulp "
+            "beside them, extra index levels in any order, unnamed level, axis = any level or None, recording in chunks), lh (LoadHistogram "
+            "range/mean and from/to matrices: mids / left / right class location, scale, shift by scalar or Series, R, amplitude_histogram, "
+            "cumulated_range), rebin (arbitrary source classes incl. zero width, int64 contents -> breaks incl. repeated breaks / class count "
+            "(int, numpy integer) / single interval / invalid binnings; twice, second target arbitrary / coarsening the first), rebin2d (two "
+            "interval levels, NaN contents, nan_default, third non-interval level, class count), combine (sum/min/max/mean, int64 and float "
+            "mixed, level order permuted), pipe (re-bin to a common binning + combine, NaN), chain (collective -> range_histogram -> re-bin -> "
+            "combine).  All numbers dyadic so that + - x are exact; model lines are compared bit-exactly except class contents of "
+            "rebin/combine (relative 1e-12, summation order).  "
             "non-trivial = at least one non-empty class / a derived quantity that is not zero; distinct by full case")
     ASSUMPTIONS = [
         "numpy's np.histogram / np.histogram2d / np.linspace and pandas' IntervalIndex (from_breaks, overlaps, mid), groupby and "
         "broadcasting of scale/shift operands are modelled by the bin rule [e_i, e_{i+1}) with the last class closed, "
         "k*step+start, l<r' & l'<r, 0.5*(l+r) and a per-row operand; the correspondence run is what ties these to the runtimes",
         "theorems are over the real numbers: rounding of class shares and weighted sums is not modelled (correspondence uses dyadic inputs; "
-        "the oracle uses a relative tolerance of 1e-9 where a sum is re-associated)",
-        "re-binning: source classes of zero width are outside the theorems' guard (the code silently drops their content); "
-        "NaN contents are modelled as absent contents (Option; skipped by sums as pandas' groupby-sum / Series.sum do), nan_default=True as 'no occupied source class overlaps'; aggregations other than sum (min/max/mean) and the combination of two-level histograms are checked by the oracle only; an integer class count for a two-level histogram is not modelled; a two-level histogram is a list of cells with two interval levels (further non-interval levels are documented as unsupported by the code); LoadHistogram.scale with a negative factor is rejected by pandas (left > right)",
-        "the pandas interval labels '(a, b]' of a histogram are labels only; class membership follows numpy's rule (a <= v < b, last class closed)",
+        "the oracle uses a relative tolerance of 1e-9 where a sum is re-associated); loads and contents are finite (NaN loads, NaN cycle "
+        "counts and the sign of zero are not generated; R for upper = 0 != lower is +-inf in the code and in the Float run of the model, "
+        "the real-number theorems exclude it by `upper r != 0`)",
+        "re-binning: a source class of zero width is a point mass that goes to the target class numpy's bin rule puts the point in "
+        "(repaired behaviour, fix C14-rebin-zero-width-class; before the fix its content was dropped: finding class rebin-zero-width-source); "
+        "NaN contents are modelled as absent contents (Option; skipped by sums as pandas' groupby-sum / Series.sum do), nan_default=True as "
+        "'no occupied source class overlaps'; aggregations other than sum (min/max/mean), the combination of two-level histograms, "
+        "two-level re-binning with NaN contents / an integer class count / a third non-interval level, LoadHistogram with a Series operand "
+        "or the left/right class location are checked by the oracle only; LoadHistogram.scale with a negative factor is rejected by "
+        "pandas (left > right); the state of accessor objects is not modelled (every case builds fresh objects)",
+        "the pandas interval labels '(a, b]' of a histogram are labels only; class membership follows numpy's rule (a <= v < b, last class "
+        "closed); bins given as a left-closed IntervalIndex come back labelled right-closed with the same contents",
+        "the clause 'and composes' is literally false for overlap-proportional re-binning (theorem rebin_compose_literal_false, corpus "
+        "compose-literal-false; the oracle counts how often A->B->C differs from A->C: distribution.compose_literal_differs); proved and "
+        "checked: totals always compose, contents compose when the middle binning refines the source or the last binning coarsens the middle one",
     ]
+    PARALLEL = 8          # impl_lines / oracle are sharded over forked processes by core.pmap
 
     def __init__(self):
         self.stats = {"kinds": {}, "bins": {}, "errors": {}, "on_edge_values": 0, "out_of_range_rows": 0,
-                      "rows_total": 0, "groups_max": 0, "with_cycles": 0, "from_gt_to": 0, "from_lt_to": 0, "from_eq_to": 0,
-                      "single_class": 0, "zero_width_class": 0, "rebin_covered": 0, "rebin_not_covered": 0,
-                      "rebin_refining": 0, "operand": {}, "repeated_index_labels": 0,
-                      "repeated_index_labels_with_cycles": 0}
+                      "rows_total": 0, "max_groups": 0, "with_cycles": 0, "from_gt_to": 0, "from_lt_to": 0, "from_eq_to": 0,
+                      "single_class": 0, "zero_width_class": 0, "zero_width_last_class_filled": 0, "rebin_covered": 0,
+                      "rebin_not_covered": 0, "rebin_zero_width_source": 0, "rebin_refining": 0, "rebin_coarsening": 0,
+                      "compose_literal_checked": 0, "compose_literal_differs": 0, "operand": {}, "repeated_index_labels": 0,
+                      "repeated_index_labels_with_cycles": 0, "layouts": {}, "dtypes": {}}
         self.exhaustive = False
 
     # -------------------------------------------------------------- generation
@@ -251,9 +421,11 @@ class C14(Prop):
         alpha = [0.0, 1.0, 2.0, 3.0] if not thorough else [-1.0, 0.0, 1.0, 2.0, 3.0]
         edge_alpha = [0.0, 1.0, 2.0, 3.0]
         self.exhaustive = True
-        self.stats["exhaustive_scope"] = (f"all collectives of 1..2 rows with from,to in {alpha} x all increasing edge lists "
-                                          f"over {edge_alpha} (>= 2 edges) x range_histogram and histogram"
-                                          + ("" if thorough else " (histogram: one-row collectives)"))
+        self.stats["exhaustive_scope"] = (f"all collectives of 1..2 rows with from,to in {alpha} x (all increasing edge lists "
+                                          f"over {edge_alpha} (>= 2 edges) + class counts 1, 2, 3) x range_histogram and histogram"
+                                          + ("" if thorough else " (histogram: one-row collectives)")
+                                          + "; all one-dimensional histograms with breaks over {0, 1, 2} (repeats allowed: zero-width "
+                                            "classes) and contents {0, 1} x all targets with breaks over {0, 1, 2, 3}")
         rows1 = [[a, b, 1.0] for a in alpha for b in alpha]
         edge_lists = [list(c) for k in range(2, len(edge_alpha) + 1) for c in itertools.combinations(edge_alpha, k)]
         colls = [[r] for r in rows1] + [[r, s] for r in rows1 for s in rows1 if (r <= s)]
@@ -262,12 +434,28 @@ class C14(Prop):
                 # class membership is decided row by row: the quick tier runs the range/mean matrix on the one-row collectives only
                 for which in (("range", "rm") if thorough or len(coll) == 1 else ("range",)):
                     yield {"kind": "hist", "which": which, "rows": coll, "bins": {"t": "edges", "e": e}, "exh": True}
-        n = 500 if not thorough else 6000
+            for n in (1, 2, 3):
+                for which in (("range", "rm") if thorough or len(coll) == 1 else ("range",)):
+                    yield {"kind": "hist", "which": which, "rows": coll, "bins": {"t": "count", "n": n}, "exh": True}
+        # re-binning: every small source (zero-width classes included) x every small target
+        src_breaks = [list(c) for k in (2, 3) for c in itertools.combinations_with_replacement([0.0, 1.0, 2.0], k)]
+        tgt_breaks = [list(c) for k in (2, 3) for c in itertools.combinations_with_replacement([0.0, 1.0, 2.0, 3.0], k)]
+        for sb in src_breaks:
+            for vals in itertools.product([0.0, 1.0], repeat=len(sb) - 1):
+                if not any(vals):
+                    continue
+                src = [[sb[i], sb[i + 1], 3.0 * vals[i] + i * vals[i]] for i in range(len(sb) - 1)]
+                for tb in tgt_breaks:
+                    yield {"kind": "rebin", "src": src, "src_style": "breaks", "target": {"t": "breaks", "b": tb}, "exh": True}
+        n = 1000 if not thorough else 6000
         for _ in range(n):
             yield from self._random_case(rng)
 
+    KINDS = ["coll", "coll", "hist", "hist", "hist", "hist", "hist", "lh", "lh", "rebin", "rebin", "rebin", "rebin", "rebin2d", "rebin2d",
+             "combine", "combine", "pipe", "pipe", "combine2d", "chain", "chain", "chain"]
+
     def _random_case(self, rng):
-        kind = rng.choice(["coll", "coll", "hist", "hist", "hist", "hist", "lh", "rebin", "rebin", "rebin", "rebin2d", "rebin2d", "combine", "combine", "pipe", "pipe", "combine2d"])
+        kind = rng.choice(self.KINDS)
         if kind == "coll":
             n = rng.choice([1, 2, 3, 5, 8])
             with_c = rng.random() < 0.5
@@ -295,33 +483,7 @@ class C14(Prop):
                 case["operand"] = {"t": "series", "level": "other", "index": list(range(1, m + 1)), "v": [dy(rng, -4, 4, 4) for _ in range(m)]}
             yield case
         elif kind == "hist":
-            n = rng.choice([1, 2, 3, 5, 8, 13, 30])
-            with_c = rng.random() < 0.5
-            rows = gen_rows(rng, n, with_c, small=rng.random() < 0.3)
-            which = rng.choice(["range", "rm", "rm", "rec"])
-            levels, keys = (None, None) if which == "rec" else gen_levels(rng, n)
-            bt = rng.choice(["edges", "edges", "array", "count", "iv", "ia"])
-            if which == "rec":
-                src = [[r[0], 0.0, 1.0] for r in rows] + [[r[1], 0.0, 1.0] for r in rows]
-                e = gen_edges(rng, src, False)
-                if len(e) == 2:
-                    e = [e[0], (e[0] + e[1]) / 2, e[1]]   # two scalars mean [nx, ny] for the recorder (documented numpy spec)
-                bins = {"t": rng.choice(["edges", "array"]), "e": e} if bt != "count" else {"t": "count", "n": rng.choice([1, 2, 3, 5, 10])}
-                rows = [[r[0], r[1], 1.0] for r in rows]
-                with_c = False
-            elif bt == "count":
-                bins = {"t": "count", "n": rng.choice([1, 1, 2, 3, 5, 10])}
-            else:
-                bins = {"t": bt, "e": gen_edges(rng, rows, which == "rm")}
-            case = {"kind": "hist", "which": which, "rows": rows, "cycles": with_c, "bins": bins,
-                    "levels": levels, "keys": keys, "axis": "cycle_number" if levels else None}
-            if not levels and rng.random() < 0.3:
-                case["named_axis"] = True
-            if which != "rec":
-                idx = gen_idx(rng, n)
-                if idx:
-                    case["idx"] = idx
-            yield case
+            yield self._hist_case(rng)
         elif kind == "lh":
             n = rng.choice([1, 2, 4])
             t = rng.choice(["rm", "rm1", "ft"])
@@ -330,15 +492,24 @@ class C14(Prop):
                 a, b = sorted([dy(rng, 0, 16, 4), dy(rng, 0, 16, 4)]) if t != "ft" else sorted([dy(rng), dy(rng)])
                 c, d = sorted([dy(rng), dy(rng)])
                 cls.append([a, b, c, d])
-            yield {"kind": "lh", "t": t, "classes": cls, "vals": [float(rng.randint(0, 50)) for _ in range(n)],
-                   "f": rng.choice([dy(rng, 0, 4, 4), 0.0, 1.0, 2.0]), "d": dy(rng, -4, 4, 4),
-                   "neg": rng.choice([None, None, -1.0, -0.5])}
+            case = {"kind": "lh", "t": t, "classes": cls, "vals": [float(rng.randint(0, 50)) for _ in range(n)],
+                    "f": rng.choice([dy(rng, 0, 4, 4), 0.0, 1.0, 2.0]), "d": dy(rng, -4, 4, 4),
+                    "neg": rng.choice([None, None, -1.0, -0.5])}
+            if rng.random() < 0.4:
+                m = rng.randint(1, 3)
+                case["series"] = {"index": list(range(1, m + 1)), "f": [dy(rng, 0, 4, 4) for _ in range(m)],
+                                  "d": [dy(rng, -4, 4, 4) for _ in range(m)]}
+            if rng.random() < 0.3:
+                case["int_vals"] = True
+            yield case
         elif kind == "rebin":
             yield self._rebin_case(rng)
         elif kind == "rebin2d":
             yield self._rebin2d_case(rng)
         elif kind == "pipe":
             yield self._pipe_case(rng)
+        elif kind == "chain":
+            yield self._chain_case(rng)
         elif kind == "combine2d":
             ax = sorted({dy(rng, 0, 8, 2) for _ in range(rng.randint(2, 3))} | {0.0, 8.0})
             ay = sorted({dy(rng, -4, 4, 2) for _ in range(rng.randint(2, 3))} | {-4.0, 4.0})
@@ -346,7 +517,7 @@ class C14(Prop):
             k = rng.choice([2, 2, 3])
             hists = [[(None if rng.random() < 0.3 else float(rng.randint(0, 80)) / 2) for _ in range(ncell)] for _ in range(k)]
             yield {"kind": "combine2d", "names": rng.choice([["range", "mean"], ["from", "to"]]), "ax": ax, "ay": ay, "hists": hists,
-                   "reversed": [rng.random() < 0.25 for _ in range(k)]}
+                   "reversed": [rng.random() < 0.25 for _ in range(k)], "swapped": [rng.random() < 0.35 for _ in range(k)]}
         else:
             k = rng.choice([1, 2, 3, 4])
             hists = []
@@ -355,7 +526,7 @@ class C14(Prop):
             with_nan = rng.random() < 0.5
 
             def val():
-                return None if with_nan and rng.random() < 0.35 else float(rng.randint(0, 40)) / 4
+                return None if with_nan and rng.random() < 0.35 else float(rng.randint(0, 40)) / rng.choice([1, 1, 4])
             if rng.random() < 0.45:
                 # all histograms on one identical index (e.g. after a common re-binning)
                 m = rng.choice([1, 2, 3, 5])
@@ -374,7 +545,93 @@ class C14(Prop):
                             r = l + rng.choice([0.5, 1.0, 2.0])
                         h.append([l, r, val()])
                     hists.append(h)
-            yield {"kind": "combine", "hists": hists}
+            # what range_histogram of a collective without cycles column returns: int64 contents
+            dt = ["int64" if h and integral([b[2] for b in h]) and rng.random() < 0.6 else "float64" for h in hists]
+            yield {"kind": "combine", "hists": hists, "dtypes": dt, "named": rng.random() < 0.3}
+
+    def _hist_case(self, rng):
+        n = rng.choice([1, 2, 3, 5, 8, 13, 30])
+        with_c = rng.random() < 0.5
+        rows = gen_rows(rng, n, with_c, small=rng.random() < 0.3)
+        which = rng.choice(["range", "range", "rm", "rm", "rec", "rec"])
+        bt = rng.choice(["edges", "edges", "array", "count", "count", "iv", "ia", "ivleft", "ivbad"])
+        if which == "rec":
+            src = [[r[0], 0.0, 1.0] for r in rows] + [[r[1], 0.0, 1.0] for r in rows]
+            u = rng.random()
+            if bt == "count":
+                bins = ({"t": "count", "n": rng.choice([1, 2, 3, 5, 10])} if u < 0.5 else
+                        {"t": "count2", "nx": rng.choice([1, 2, 3, 7]), "ny": rng.choice([1, 2, 4, 5])})
+            else:
+                ex = gen_edges(rng, src, False)
+                if u < 0.4:
+                    if len(ex) == 2:
+                        ex = [ex[0], (ex[0] + ex[1]) / 2, ex[1]]   # two scalars mean [nx, ny] for the recorder (documented numpy spec)
+                    bins = {"t": rng.choice(["edges", "array"]), "e": ex}
+                else:
+                    bins = {"t": rng.choice(["edges2", "edges2", "lists2"]), "ex": ex, "ey": gen_edges(rng, src, False)}
+            rows = [[r[0], r[1], 1.0] for r in rows]
+            case = {"kind": "hist", "which": "rec", "rows": rows, "cycles": False, "bins": bins, "levels": None, "keys": None, "axis": None}
+            if n >= 2 and rng.random() < 0.5:
+                cuts = sorted(rng.sample(range(1, n), rng.randint(1, min(3, n - 1))))
+                case["chunks"] = [b - a for a, b in zip([0] + cuts, cuts + [n])]
+            return case
+        if bt == "count":
+            bins = {"t": "count", "n": rng.choice([1, 1, 2, 3, 5, 10])}
+        elif bt == "ivbad":
+            e = [x for x in sorted(set(gen_edges(rng, rows, which == "rm")))]
+            while len(e) < 4:
+                e.append(e[-1] + 1.0)
+            ivs = [[e[i], e[i + 1]] for i in range(len(e) - 1)]
+            if rng.random() < 0.6:
+                del ivs[rng.randrange(1, len(ivs) - 1)]                     # a gap
+                bins = {"t": "iv_gap", "iv": ivs}
+            else:
+                j = rng.randrange(0, len(ivs) - 1)
+                ivs[j][1] = (ivs[j + 1][0] + ivs[j + 1][1]) / 2              # overlaps its right neighbour
+                bins = {"t": "iv_overlap", "iv": ivs}
+        else:
+            bins = {"t": bt, "e": gen_edges(rng, rows, which == "rm")}
+        case = {"kind": "hist", "which": which, "rows": rows, "cycles": with_c, "bins": bins}
+        case.update(gen_layout(rng, n))
+        if with_c and integral([r[2] for r in rows]) and rng.random() < 0.5:
+            case["int_cycles"] = True
+        if not case["levels"] and rng.random() < 0.3:
+            case["named_axis"] = True
+        idx = gen_idx(rng, n)
+        if idx:
+            case["idx"] = idx
+        return case
+
+    def _chain_case(self, rng):
+        """The documented pipeline: 1-3 collectives -> range_histogram(own edges) -> re-bin to one common binning -> combine."""
+        k = rng.choice([1, 2, 2, 3])
+        parts = []
+        for _ in range(k):
+            n = rng.choice([1, 2, 3, 5, 8])
+            with_c = rng.random() < 0.4
+            rows = gen_rows(rng, n, with_c, small=rng.random() < 0.4)
+            rows = [[r[0], r[1], (r[2] if r[2] != 1e6 else 6.0)] for r in rows]
+            parts.append({"rows": rows, "cycles": with_c, "e": gen_edges(rng, rows, False), "bt": rng.choice(["edges", "edges", "iv", "array"]),
+                          "rebin": True})
+        lo = min(p["e"][0] for p in parts)
+        hi = max(p["e"][-1] for p in parts)
+        u = rng.random()
+        if u < 0.4:
+            # the first histogram keeps its own binning (int64 when there is no cycles column), the others are re-binned to it
+            target = list(parts[0]["e"])
+            parts[0]["rebin"] = rng.random() < 0.25
+        else:
+            cover = rng.random() < 0.85
+            a = lo - rng.choice([0.0, 0.0, 1.0]) if cover else lo + 0.5
+            b = hi + rng.choice([0.0, 0.0, 1.5])
+            if b <= a:
+                b = a + 1.0
+            m = rng.randint(1, 6)
+            if u < 0.7:
+                target = [a + (b - a) * i / m for i in range(m + 1)]
+            else:
+                target = sorted({a + (b - a) * rng.randint(1, 31) / 32 for _ in range(m - 1)} | {a, b})
+        return {"kind": "chain", "parts": parts, "target": target, "order": rng.choice(["fwd", "fwd", "rev"])}
 
     def _pipe_case(self, rng):
         """2-3 histograms with their own binnings -> one common (wider) binning, nan_default True/False -> combine."""
@@ -384,6 +641,8 @@ class C14(Prop):
             lo = dy(rng, 0, 6, 2)
             m = rng.randint(1, 4)
             br = sorted({lo + rng.randint(0, 12) / 2 for _ in range(m)} | {lo, lo + rng.choice([1.0, 2.0, 4.0, 6.0])})
+            if rng.random() < 0.2:
+                br.append(br[-1])               # a zero-width last class (what numpy fills with the values on the last edge)
             parts.append([[br[i], br[i + 1], (None if rng.random() < 0.15 else float(rng.choice([0, 1, 2, 5, 8, 20, 50, 100])))]
                           for i in range(len(br) - 1)])
         lo = min(p[0][0] for p in parts)
@@ -413,14 +672,19 @@ class C14(Prop):
             ylo = dy(rng, -20, 20, 2)
             yhi = ylo + rng.choice([0.5, 4.0, 10.0, 40.0])
         ax, ay = breaks(xlo, xhi, rng.randint(1, 3)), breaks(ylo, yhi, rng.randint(1, 3))
+        if rng.random() < 0.12:
+            ax = ax + [ax[-1]]                        # zero-width last class of the first level
         ncell = (len(ax) - 1) * (len(ay) - 1)
         vals = [float(rng.choice([0, 1, 2, 3, 5, 10, 40])) for _ in range(ncell)]
         drop = sorted(rng.sample(range(ncell), rng.randint(0, ncell - 1))) if rng.random() < 0.25 else []
-        tk = rng.choice(["same", "swapped", "swapped", "swapped", "plain", "identity", "identity_swapped"])
+        tk = rng.choice(["same", "swapped", "swapped", "swapped", "plain", "identity", "identity_swapped", "count"])
         case = {"kind": "rebin2d", "names": names, "ax": ax, "ay": ay, "vals": vals, "drop": drop}
         if tk in ("identity", "identity_swapped"):
             case["drop"] = []
             case["target"] = {"t": "multi", "order": "swapped" if tk.endswith("swapped") else "same", "bx": ax, "by": ay}
+        elif tk == "count":
+            case["drop"] = []
+            case["target"] = {"t": "count", "n": rng.choice([1, 2, 3])}
         elif tk == "plain":
             lo, hi = min(xlo, ylo) - rng.choice([0.0, 1.0]), max(xhi, yhi) + rng.choice([0.0, 1.0])
             case["target"] = {"t": "plain", "b": breaks(lo, hi, rng.randint(1, 4))}
@@ -431,6 +695,13 @@ class C14(Prop):
                 b = hi + rng.choice([0.0, 0.0, 2.0])
                 return breaks(a, b, rng.randint(1, 4))
             case["target"] = {"t": "multi", "order": tk, "bx": tb(xlo, xhi), "by": tb(ylo, yhi)}
+        u = rng.random()
+        if u < 0.2:
+            # unoccupied cells (NaN contents) and / or nan_default=True: oracle only
+            case["nan"] = sorted(rng.sample(range(ncell), rng.randint(0, max(0, ncell - 1))))
+            case["nan_default"] = rng.random() < 0.6
+        elif u < 0.35:
+            case["extra"] = rng.choice([[10], [10, 20], [7, 3, 5]])   # a third, non-interval level (what histogram(..., axis) returns)
         return case
 
     def _rebin_case(self, rng):
@@ -440,22 +711,42 @@ class C14(Prop):
             br = sorted({dy(rng, -4, 12, 4) for _ in range(m + 1)})
             if len(br) < 2:
                 br = [br[0], br[0] + 1.0]
+            u = rng.random()
+            if u < 0.15:
+                br = br + [br[-1]]            # zero-width last class (numpy fills it)
+            elif u < 0.22:
+                j = rng.randrange(len(br))
+                br.insert(j, br[j])           # zero-width class anywhere
             src = [[br[i], br[i + 1], float(rng.choice([0, 0, 1, 2, 5, 10, 40, 7]))] for i in range(len(br) - 1)]
         else:
             m = rng.choice([1, 2, 4, 6])
             src = []
             for _ in range(m):
                 l = dy(rng, -4, 12, 4)
-                src.append([l, l + rng.choice([0.25, 0.5, 1.0, 3.0, 6.5]), float(rng.choice([0, 1, 2, 5, 10, 40, 7]))])
+                src.append([l, l + rng.choice([0.25, 0.5, 1.0, 3.0, 6.5, 0.0]), float(rng.choice([0, 1, 2, 5, 10, 40, 7]))])
         if style == "breaks" and len(src) > 1 and rng.random() < 0.25:
             rng.shuffle(src)          # the classes of a histogram need not be stored in increasing order
             style = "arb"
         lo = min(s[0] for s in src)
         hi = max(s[1] for s in src)
-        tk = rng.choice(["breaks", "breaks", "breaks", "count", "single", "same", "refine"] + (["count", "count"] if style == "arb" else []))
+        tk = rng.choice(["breaks", "breaks", "breaks", "count", "single", "same", "refine", "refine", "invalid"] + (["count", "count"] if style == "arb" else []))
         case = {"kind": "rebin", "src": src, "src_style": style}
+        if rng.random() < 0.3:
+            case["src_dtype"] = "int64"
         if tk == "count":
-            case["target"] = {"t": "count", "n": rng.choice([1, 1, 2, 3, 7])}
+            case["target"] = {"t": rng.choice(["count", "count", "npcount"]), "n": rng.choice([1, 1, 2, 3, 7])}
+        elif tk == "invalid":
+            e = sorted({lo - 1.0, lo, (lo + hi) / 2, hi, hi + 1.0, hi + 2.0})
+            ivs = [[e[i], e[i + 1]] for i in range(len(e) - 1)]
+            what = rng.choice(["gap", "overlap", "decreasing", "list", "float"])
+            if what == "gap":
+                del ivs[rng.randrange(1, len(ivs) - 1)]
+            elif what == "overlap":
+                j = rng.randrange(0, len(ivs) - 1)
+                ivs[j][1] = (ivs[j + 1][0] + ivs[j + 1][1]) / 2
+            elif what == "decreasing":
+                ivs.reverse()
+            case["target"] = {"t": "invalid", "what": what, "iv": ivs}
         elif tk == "single":
             case["target"] = {"t": "breaks", "b": [lo - rng.choice([0.0, 1.0]), hi + rng.choice([0.0, 2.5])]}
         elif tk == "same" and style == "breaks":
@@ -471,17 +762,48 @@ class C14(Prop):
             if tk == "refine" and style == "breaks":   # target keeps every source break
                 inner = sorted(set(inner) | {s[0] for s in src} | {src[-1][1]})
                 inner = [x for x in inner if a < x < b]
-            case["target"] = {"t": "breaks", "b": [a] + inner + [b]}
+            tb = [a] + inner + [b]
+            if rng.random() < 0.12:
+                j = rng.randrange(len(tb))
+                tb.insert(j, tb[j])           # a zero-width target class
+            case["target"] = {"t": "breaks", "b": tb}
         # second target for the composition A -> B -> C
         if case["target"]["t"] == "breaks" and rng.random() < 0.7:
             tb = case["target"]["b"]
-            k = rng.randint(1, 5)
-            a2, b2 = tb[0] - rng.choice([0.0, 1.0]), tb[-1] + rng.choice([0.0, 1.0])
-            inner = sorted({a2 + (b2 - a2) * rng.randint(1, 15) / 16 for _ in range(k - 1)})
-            case["target2"] = [a2] + inner + [b2]
+            if len(tb) >= 3 and rng.random() < 0.5:
+                # C coarsens B: a sub-list of B's breaks (first and last kept or not)
+                keep = [x for x in tb if rng.random() < 0.6]
+                if rng.random() < 0.7:
+                    keep = [tb[0]] + keep + [tb[-1]]
+                keep = sorted(set(keep))
+                if len(keep) < 2:
+                    keep = [tb[0], tb[-1]]
+                if keep[0] == keep[-1]:
+                    keep = [tb[0], tb[-1]] if tb[0] < tb[-1] else [tb[0], tb[0] + 1.0]
+                case["target2"] = keep
+            else:
+                k = rng.randint(1, 5)
+                a2, b2 = tb[0] - rng.choice([0.0, 1.0]), tb[-1] + rng.choice([0.0, 1.0])
+                if b2 <= a2:
+                    b2 = a2 + 1.0
+                inner = sorted({a2 + (b2 - a2) * rng.randint(1, 15) / 16 for _ in range(k - 1)})
+                case["target2"] = [a2] + inner + [b2]
         return case
 
     # -------------------------------------------------------------- model side
+    @staticmethod
+    def _flat_rows(rows, weighted):
+        return " ".join(f"{f2h(r[0])} {f2h(r[1])} {f2h(r[2] if weighted else 1.0)}" for r in rows)
+
+    @staticmethod
+    def _rec_edges(b):
+        """(ex, ey) of an explicit recorder bin specification, None for class counts."""
+        if b["t"] in ("edges", "array"):
+            return b["e"], b["e"]
+        if b["t"] in ("edges2", "lists2"):
+            return b["ex"], b["ey"]
+        return None
+
     def model_lines(self, case):
         k = case["kind"]
         if k == "coll":
@@ -497,16 +819,22 @@ class C14(Prop):
         if k == "hist":
             lines = []
             b = case["bins"]
-            for key in group_keys(case) if case.get("axis") else [()]:
-                rows = rows_of_group(case, key) if case.get("axis") else case["rows"]
-                flat = " ".join(f"{f2h(r[0])} {f2h(r[1])} {f2h(r[2] if case.get('cycles') else 1.0)}" for r in rows)
+            if b["t"] in ("iv_gap", "iv_overlap"):
+                return []          # must be rejected: oracle only
+            if case["which"] == "rec":
+                flat = self._flat_rows(case["rows"], False)
+                ee = self._rec_edges(b)
+                if ee is not None:
+                    return [f"c14 fthist2 {len(ee[0])} {hx(ee[0])} {len(ee[1])} {hx(ee[1])} {flat}"]
+                nx, ny = (b["n"], b["n"]) if b["t"] == "count" else (b["nx"], b["ny"])
+                return [f"c14 fthistn {nx} {ny} {flat}"]
+            for key in group_keys(case):
+                flat = self._flat_rows(rows_of_group(case, key), case.get("cycles"))
                 if b["t"] == "count":
-                    op = {"range": "rhistn", "rm": "hist2n", "rec": "hist2n"}[case["which"]]
-                    if case["which"] == "rec":
-                        return []      # integer class counts of the recorder: oracle only (edges from from/to, not range/mean)
+                    op = {"range": "rhistn", "rm": "hist2n"}[case["which"]]
                     lines.append(f"c14 {op} {b['n']} {flat}")
                 else:
-                    op = {"range": "rhist", "rm": "hist2", "rec": "fthist"}[case["which"]]
+                    op = {"range": "rhist", "rm": "hist2"}[case["which"]]
                     lines.append(f"c14 {op} {len(b['e'])} {hx(b['e'])} {flat}")
             return lines
         if k == "lh":
@@ -523,6 +851,8 @@ class C14(Prop):
             flat = " ".join(hx(s) for s in case["src"])
             t = case["target"]
             lines = []
+            if t["t"] in ("invalid", "npcount"):
+                return []          # oracle only
             if t["t"] == "count":
                 lines.append(f"c14 rebinn {t['n']} {flat}")
             else:
@@ -534,6 +864,8 @@ class C14(Prop):
         if k == "rebin2d":
             n1, n2 = case["names"]
             t = case["target"]
+            if t["t"] == "count" or case.get("nan") is not None or case.get("extra"):
+                return []          # oracle only
             if t["t"] == "plain":
                 tl = [(n1, t["b"]), (n2, t["b"])]
             else:
@@ -547,6 +879,11 @@ class C14(Prop):
             t = case["target"]
             return [f"c14 pipe {1 if case['nan_default'] else 0} {len(t)} {hx(t)} {len(hs)} "
                     f"{' '.join(str(len(h)) for h in hs)} {' '.join(hx(b) for h in hs for b in h)}"]
+        if k == "chain":
+            t = case["target"]
+            parts = self._chain_parts(case)
+            return [f"c14 chain {len(t)} {hx(t)} {len(parts)} " +
+                    " ".join(f"{len(p['e'])} {hx(p['e'])} {len(p['rows'])} {self._flat_rows(p['rows'], p.get('cycles'))}" for p in parts)]
         if k == "combine2d":
             return []
         if k == "combine":
@@ -555,28 +892,50 @@ class C14(Prop):
         return []
 
     @staticmethod
+    def _chain_parts(case):
+        parts = list(case["parts"])
+        if case.get("order") == "rev":
+            parts.reverse()
+        return parts
+
+    @staticmethod
     def _cells(case):
         ax, ay = case["ax"], case["ay"]
         ny = len(ay) - 1
+        nan = set(case.get("nan") or [])
         out = []
         for i in range(len(ax) - 1):
             for j in range(ny):
                 k = i * ny + j
                 if k not in case["drop"]:
-                    out.append([ax[i], ax[i + 1], ay[j], ay[j + 1], case["vals"][k]])
+                    out.append([ax[i], ax[i + 1], ay[j], ay[j + 1], None if k in nan else case["vals"][k]])
         return out
 
     @staticmethod
-    def _hist2(case):
+    @builder
+    def _hist2(case, factor=1.0):
         cells = C14._cells(case)
         ix = pd.MultiIndex.from_arrays([pd.IntervalIndex.from_arrays([c[0] for c in cells], [c[1] for c in cells]),
                                         pd.IntervalIndex.from_arrays([c[2] for c in cells], [c[3] for c in cells])],
                                        names=case["names"])
-        return pd.Series([c[4] for c in cells], index=ix, dtype=float)
+        return pd.Series([nn(c[4]) * factor for c in cells], index=ix, dtype=float)
 
     @staticmethod
+    @builder
+    def _hist3(case):
+        """The two-level histogram repeated under a third, non-interval level `element_id` (contents x 1, x 2, ...)."""
+        parts = {e: C14._hist2(case, float(i + 1)) for i, e in enumerate(case["extra"])}
+        return pd.concat(parts, names=["element_id"])
+
+    @staticmethod
+    @builder
     def _target2(case, order=None):
         t = case["target"]
+        if t["t"] == "count":
+            n = int(t["n"])
+            bx = [case["ax"][0] + (case["ax"][-1] - case["ax"][0]) * i / n for i in range(n + 1)]
+            by = [case["ay"][0] + (case["ay"][-1] - case["ay"][0]) * i / n for i in range(n + 1)]
+            return n, bx, by
         if t["t"] == "plain":
             return pd.IntervalIndex.from_breaks(t["b"]), t["b"], t["b"]
         n1, n2 = case["names"]
@@ -586,7 +945,7 @@ class C14(Prop):
         return pd.MultiIndex.from_product([l[1] for l in lv], names=[l[0] for l in lv]), t["bx"], t["by"]
 
     @staticmethod
-    def _matrix2(case, res, bx, by):
+    def _matrix2(case, res, bx, by, approx=False):
         """Row-major contents of the result for the requested classes; None if the result has other classes."""
         n1, n2 = case["names"]
         if list(res.index.names) != [n1, n2]:
@@ -596,10 +955,22 @@ class C14(Prop):
         for xl, xr, yl, yr, v in zip(a.left, a.right, b.left, b.right, res.to_numpy(dtype=float)):
             key = (float(xl), float(xr), float(yl), float(yr))
             if key in got:
-                return None
+                # repeated labels (zero-width classes of a binning with repeated breaks): contents add up
+                got[key] = got[key] + float(v) if v == v else got[key]
+                continue
             got[key] = float(v)
         want = [(bx[i], bx[i + 1], by[j], by[j + 1]) for i in range(len(bx) - 1) for j in range(len(by) - 1)]
-        if len(got) != len(want) or any(k not in got for k in want):
+        if approx:
+            def near(k):
+                for g in got:
+                    if all(abs(x - y) <= 1e-9 * max(1.0, abs(x)) for x, y in zip(g, k)):
+                        return g
+                return None
+            keys = [near(k) for k in want]
+            if len(got) != len(set(want)) or any(k is None for k in keys):
+                return None
+            return [got[k] for k in keys]
+        if len(got) != len(set(want)) or any(k not in got for k in want):
             return None
         return [got[k] for k in want]
 
@@ -619,10 +990,22 @@ class C14(Prop):
         mods()
         with warnings.catch_warnings():
             warnings.simplefilter("ignore")
-            return self._impl_lines(case)
+            try:
+                return self._impl_lines(case)
+            except HarnessError:
+                raise
+            except Exception as e:          # noqa: BLE001
+                if core._involves_implementation(e):
+                    raise                   # core reports `EXC ...` as the implementation's answer
+                # the implementation returned something the canonicalisation cannot take apart: a disagreement, not a harness bug
+                return [f"err:malformed-result:{type(e).__name__}: {str(e)[:120]} at {_where(e)}"]
 
     def _count(self, d, k):
         self.stats[d][k] = self.stats[d].get(k, 0) + 1
+
+    @staticmethod
+    def _bins_of(ix, vals):
+        return " ".join(hx([iv.left, iv.right, v]) for iv, v in zip(ix, vals))
 
     def _impl_lines(self, case):
         m = mods()
@@ -656,24 +1039,30 @@ class C14(Prop):
         if k == "hist":
             return self._impl_hist(case)
         if k == "lh":
-            lines = []
             ser = self._lh_series(case)
             lh = ser.load_collective
 
             def q(x):
                 return [hx(v) for v in zip(x.amplitude.to_numpy(dtype=float), np.asarray(x.meanstress, dtype=float),
-                                           x.upper.to_numpy(dtype=float), x.lower.to_numpy(dtype=float))]
+                                           x.upper.to_numpy(dtype=float), x.lower.to_numpy(dtype=float), x.R.to_numpy(dtype=float))]
             a, b, c = q(lh), q(lh.scale(case["f"])), q(lh.shift(case["d"]))
             return [f"{x};{y};{z}" for x, y, z in zip(a, b, c)]
         if k == "rebin":
             src = case["src"]
-            h = pd.Series([s[2] for s in src], index=pd.IntervalIndex.from_arrays([s[0] for s in src], [s[1] for s in src]))
+            h = self._rebin_src(case)
+            if any(s[0] == s[1] for s in src):
+                self.stats["rebin_zero_width_source"] += 1
+            self._count("dtypes", "rebin:" + str(h.dtype))
             t = case["target"]
             lines = []
             covered = True
+            if t["t"] in ("invalid", "npcount"):
+                self._count("bins", "rebin:" + t["t"])
+                return []
             if t["t"] == "count":
+                self._count("bins", "rebin:" + t["t"])
                 try:
-                    r = m["rebin"](h, int(t["n"]))
+                    r = m["rebin"](h, bins_arg(t))
                     lines.append(hx(edges_of_index(r.index)) + ";" + hx(r.to_numpy(dtype=float)))
                 except Exception as e:
                     self._count("errors", "rebin:" + type(e).__name__)
@@ -696,6 +1085,10 @@ class C14(Prop):
             self.stats["rebin_covered" if covered else "rebin_not_covered"] += 1
             return lines
         if k == "rebin2d":
+            t = case["target"]
+            if t["t"] == "count" or case.get("nan") is not None or case.get("extra"):
+                self._count("bins", "rebin2d:" + ("count" if t["t"] == "count" else "nan" if case.get("nan") is not None else "extra-level"))
+                return []
             target, bx, by = self._target2(case)
             self._count("bins", "rebin2d:" + case["target"]["t"] + ":" + case["target"].get("order", ""))
             try:
@@ -714,26 +1107,50 @@ class C14(Prop):
                 self._count("errors", "pipe:" + type(e).__name__)
                 return [err(e)]
             self._count("bins", "pipe:nan_default=" + str(case["nan_default"]))
-            return [";".join(hx(p.to_numpy(dtype=float)) for p in parts) + ";" +
-                    " ".join(hx([iv.left, iv.right, v]) for iv, v in zip(comb.index, comb.to_numpy(dtype=float)))]
+            return [";".join(hx(p.to_numpy(dtype=float)) for p in parts) + ";" + self._bins_of(comb.index, comb.to_numpy(dtype=float))]
+        if k == "chain":
+            try:
+                hs, rb, comb = self._run_chain(case)
+            except Exception as e:
+                self._count("errors", "chain:" + type(e).__name__)
+                return [err(e)]
+            for h in rb:
+                self._count("dtypes", "chain:" + str(h.dtype))
+            return [";".join(hx(h.to_numpy(dtype=float)) for h in hs) + ";" + ";".join(hx(h.to_numpy(dtype=float)) for h in rb) + ";" +
+                    self._bins_of(comb.index, comb.to_numpy(dtype=float))]
         if k == "combine":
             if any(b[2] is None for h in case["hists"] for b in h):
                 self._count("bins", "combine:with-nan")
-            hs = [pd.Series([nn(b[2]) for b in h], index=pd.IntervalIndex.from_arrays([b[0] for b in h], [b[1] for b in h]), dtype=float)
-                  for h in case["hists"]]
+            hs = self._combine_inputs(case)
+            for h in hs:
+                self._count("dtypes", "combine:" + str(h.dtype))
             try:
                 r = m["combine"](hs, "sum")
                 if len(r) == 0:
                     return [""]
-                return [" ".join(hx([iv.left, iv.right, v]) for iv, v in zip(r.index, r.to_numpy(dtype=float)))]
+                return [self._bins_of(r.index, r.to_numpy(dtype=float))]
             except Exception as e:
                 self._count("errors", "combine:" + type(e).__name__)
                 return [err(e)]
         return []
 
     @staticmethod
-    def _series1(h):
-        return pd.Series([nn(b[2]) for b in h], index=pd.IntervalIndex.from_arrays([b[0] for b in h], [b[1] for b in h]), dtype=float)
+    @builder
+    def _series1(h, dtype=float, name=None):
+        ix = pd.IntervalIndex.from_arrays([b[0] for b in h], [b[1] for b in h], name=name)
+        return pd.Series([nn(b[2]) for b in h], index=ix, dtype=dtype)
+
+    @builder
+    def _combine_inputs(self, case):
+        dts = case.get("dtypes") or ["float64"] * len(case["hists"])
+        name = "range" if case.get("named") else None
+        return [self._series1(h, np.int64 if dt == "int64" else float, name) for h, dt in zip(case["hists"], dts)]
+
+    @builder
+    def _rebin_src(self, case):
+        src = case["src"]
+        dt = np.int64 if case.get("src_dtype") == "int64" and integral([s[2] for s in src]) else float
+        return pd.Series([s[2] for s in src], index=pd.IntervalIndex.from_arrays([s[0] for s in src], [s[1] for s in src]), dtype=dt)
 
     def _run_pipe(self, case):
         m = mods()
@@ -741,14 +1158,29 @@ class C14(Prop):
         parts = [m["rebin"](self._series1(h), target, nan_default=bool(case["nan_default"])) for h in case["parts"]]
         return parts, m["combine"](parts, "sum")
 
-    def _apply_operand(self, case, lc):
+    def _run_chain(self, case):
+        m = mods()
+        target = pd.IntervalIndex.from_breaks(case["target"])
+        hs, rb = [], []
+        for p in self._chain_parts(case):
+            lc = make_frame({"rows": p["rows"], "cycles": p.get("cycles")}).load_collective
+            h = lc.range_histogram(bins_arg({"t": p["bt"], "e": p["e"]})).to_pandas()
+            hs.append(h)
+            rb.append(m["rebin"](h, target) if p.get("rebin", True) else h)
+        return hs, rb, m["combine"](rb, "sum")
+
+    @builder
+    def _operand_arg(self, case):
         op = case["operand"]
         if op["t"] == "scalar":
-            arg = op["v"]
-        else:
-            arg = pd.Series(op["v"], index=pd.Index(op["index"], name=op["level"]), dtype=float)
+            return op["v"]
+        return pd.Series(op["v"], index=pd.Index(op["index"], name=op["level"]), dtype=float)
+
+    def _apply_operand(self, case, lc):
+        arg = self._operand_arg(case)
         return lc.scale(arg) if case["op"] == "scale" else lc.shift(arg)
 
+    @builder
     def _lh_series(self, case):
         cls = case["classes"]
         if case["t"] == "ft":
@@ -757,18 +1189,27 @@ class C14(Prop):
             names = ["range", "mean"]
         a = pd.IntervalIndex.from_arrays([c[0] for c in cls], [c[1] for c in cls])
         b = pd.IntervalIndex.from_arrays([c[2] for c in cls], [c[3] for c in cls])
+        dt = np.int64 if case.get("int_vals") else float
         if case["t"] == "rm1":
             a.name = "range"
-            return pd.Series(case["vals"], index=a, name="cycles", dtype=float)
-        return pd.Series(case["vals"], index=pd.MultiIndex.from_arrays([a, b], names=names), name="cycles", dtype=float)
+            return pd.Series(case["vals"], index=a, name="cycles", dtype=dt)
+        return pd.Series(case["vals"], index=pd.MultiIndex.from_arrays([a, b], names=names), name="cycles", dtype=dt)
+
+    def _recorder(self, case):
+        rec = mods()["rec"]()
+        fr = np.asarray([r[0] for r in case["rows"]], dtype=float)
+        to = np.asarray([r[1] for r in case["rows"]], dtype=float)
+        pos = 0
+        for n in case.get("chunks") or [len(fr)]:
+            rec.record_values(fr[pos:pos + n], to[pos:pos + n])
+            pos += n
+        return rec
 
     def _hist_result(self, case):
         """Call the real histogram function; returns the pandas Series."""
         bins = bins_arg(case["bins"])
         if case["which"] == "rec":
-            rec = mods()["rec"]()
-            rec.record_values(np.asarray([r[0] for r in case["rows"]], dtype=float), np.asarray([r[1] for r in case["rows"]], dtype=float))
-            return rec.histogram(bins)
+            return self._recorder(case).histogram(bins)
         lc = make_frame(case).load_collective
         fn = lc.range_histogram if case["which"] == "range" else lc.histogram
         if case.get("axis"):
@@ -778,7 +1219,11 @@ class C14(Prop):
     def _impl_hist(self, case):
         b = case["bins"]
         self._count("bins", case["which"] + ":" + b["t"] + (":axis" if case.get("axis") else ""))
-        if b["t"] != "count":
+        if case.get("levels"):
+            names = full_names(case)
+            self._count("layouts", f"levels={len(names)} axis={'none' if case.get('axis') is None else 'last' if names[-1] == case['axis'] else 'inner'}"
+                                   + (" unnamed" if None in names else ""))
+        if "e" in b:
             if len(b["e"]) == 2:
                 self.stats["single_class"] += 1
             if any(x == y for x, y in zip(b["e"], b["e"][1:])):
@@ -790,10 +1235,12 @@ class C14(Prop):
                     self.stats["on_edge_values"] += 1
                 if not (b["e"][0] <= rg <= b["e"][-1]):
                     self.stats["out_of_range_rows"] += 1
-        if case["which"] == "rec" and b["t"] == "count":
+            if case["which"] == "range" and len(b["e"]) >= 2 and b["e"][-1] == b["e"][-2] and any(abs(r[0] - r[1]) == b["e"][-1] for r in case["rows"]):
+                self.stats["zero_width_last_class_filled"] += 1
+        if b["t"] in ("iv_gap", "iv_overlap"):
             return []
-        groups = group_keys(case) if case.get("axis") else [()]
-        self.stats["groups_max"] = max(self.stats["groups_max"], len(groups))
+        groups = group_keys(case)
+        self.stats["max_groups"] = max(self.stats["max_groups"], len(groups))
         self.stats["rows_total"] += len(case["rows"])
         if case.get("cycles"):
             self.stats["with_cycles"] += 1
@@ -802,7 +1249,12 @@ class C14(Prop):
         except Exception as e:
             self._count("errors", "hist:" + type(e).__name__)
             return [err(e)] * len(groups)
-        parts = split_result(case, res, 1 if case["which"] == "range" else 2)
+        if case["which"] == "rec":
+            fr, to = res.index.get_level_values("from"), res.index.get_level_values("to")
+            return [hx(edges_of_level(fr)) + ";" + hx(edges_of_level(to)) + ";" + hx(res.to_numpy(dtype=float))]
+        parts = split_result(case, res)
+        if sum(len(p) for p in parts.values()) != len(res):
+            return [f"err:groups: {len(res)} result rows, {sum(len(p) for p in parts.values())} belong to the expected groups {groups}"] * len(groups)
         lines = []
         for key in groups:
             sub = parts[key]
@@ -811,9 +1263,8 @@ class C14(Prop):
                 if case["which"] == "range":
                     lines.append(hx(edges_of_index(sub.index)) + ";" + vals)
                 else:
-                    n = int(b["n"])
-                    er = edges_of_index(sub.index.get_level_values(0)[::n])
-                    em = edges_of_index(sub.index.get_level_values(1)[:n])
+                    er = edges_of_level(sub.index.get_level_values("range"))
+                    em = edges_of_level(sub.index.get_level_values("mean"))
                     lines.append(hx(er) + ";" + hx(em) + ";" + vals)
             else:
                 lines.append(vals)
@@ -822,12 +1273,12 @@ class C14(Prop):
     # -------------------------------------------------------------- comparison
     def compare(self, case, model_out, impl_out):
         if len(model_out) != len(impl_out):
-            return f"length {len(model_out)} vs {len(impl_out)}"
-        tol = case["kind"] in ("rebin", "rebin2d", "combine", "pipe")
+            return f"length {len(model_out)} vs {len(impl_out)}: impl={[l[:200] for l in impl_out[:2]]!r}"
+        tol = case["kind"] in ("rebin", "rebin2d", "combine", "pipe", "chain")
         for i, (a, b) in enumerate(zip(model_out, impl_out)):
             if a == b:
                 continue
-            if b.startswith("err:") or a == "bad-op":
+            if b.startswith("err:") or b.startswith("EXC ") or a == "bad-op":
                 return f"line {i}: model={a[:200]!r} impl={b[:200]!r}"
             ta, tb = a.replace(";", " ; ").split(), b.replace(";", " ; ").split()
             if len(ta) != len(tb):
@@ -860,10 +1311,21 @@ class C14(Prop):
         mods()      # registers the accessors (the oracle may run without a preceding correspondence pass)
         with warnings.catch_warnings():
             warnings.simplefilter("ignore")
-            return getattr(self, "_oracle_" + case["kind"])(case)
+            try:
+                return getattr(self, "_oracle_" + case["kind"])(case)
+            except HarnessError:
+                raise                       # the harness could not build its own input: infrastructure error
+            except Exception as e:          # noqa: BLE001
+                if core._involves_implementation(e):
+                    raise                   # core turns it into the finding `implementation-raises`
+                # no pylife frame: the exception comes from taking a RESULT of the implementation apart (missing level, wrong
+                # index type, wrong length ...) - the implementation returned something the property does not allow
+                return (f"the result of the implementation has an unexpected shape: {type(e).__name__}: {str(e)[:200]} at {_where(e)}",
+                        "result-malformed")
 
     def _oracle_coll(self, case):
         df = make_frame(case)
+        df0 = df.copy(deep=True)
         lc = df.load_collective
         amp, mean, up, lo, R, cyc = (lc.amplitude.to_numpy(float), lc.meanstress.to_numpy(float), lc.upper.to_numpy(float),
                                      lc.lower.to_numpy(float), lc.R.to_numpy(float), lc.cycles.to_numpy(float))
@@ -905,6 +1367,17 @@ class C14(Prop):
                 return (f"{case['op']} by {f}: row {i} (amplitude, mean, upper, lower) = {got}, expected {want}", "equivariance")
             if c2[i] != c:
                 return (f"{case['op']}: cycles of row {i} changed from {c} to {c2[i]}", "cycles")
+        # the collective that was scaled / shifted is still the same, and asking it again gives the same answers
+        again = (lc.amplitude.to_numpy(float), lc.meanstress.to_numpy(float), lc.upper.to_numpy(float), lc.lower.to_numpy(float))
+        changed = not df.equals(df0) or not df.index.equals(df0.index)
+        if changed or any(list(x) != list(y) for x, y in zip(again, (amp, mean, up, lo))):
+            # mechanism of the documented defect: a scalar operand is applied IN PLACE (the returned collective is the caller's object)
+            in_place = case["operand"]["t"] == "scalar" and list(again[0]) == list(a2) and list(again[1]) == list(m2)
+            d = (f"{case['op']}({case['operand'].get('v')}) changed the collective it was called on"
+                 + (" (the caller's DataFrame now holds the scaled / shifted loads)" if changed else " (its amplitudes / means are now the scaled / shifted ones)"))
+            cls = "collective-scale-shift-in-place" if in_place else "input-modified"
+            if not self.known(cls, d):
+                return (d, cls)
         return None
 
     def _oracle_hist(self, case):
@@ -913,15 +1386,33 @@ class C14(Prop):
         try:
             res = self._hist_result(case)
         except Exception as e:
-            if b["t"] != "count" and len(b["e"]) == 2 and which == "rm":
+            if b["t"] in ("iv_gap", "iv_overlap") and isinstance(e, ValueError):
+                return None            # interval bins that are not a gap-free binning are rejected
+            if "e" in b and len(b["e"]) == 2 and which == "rm":
                 return (f"histogram with the single class {b['e']} raises {type(e).__name__}: {e}", "histogram-two-edges")
             if b["t"] == "count" and case.get("axis") and which == "rm":
                 return (f"histogram(bins={b['n']}, axis=...) raises {type(e).__name__}: {e}", "histogram-count-axis")
             return (f"histogram raises {type(e).__name__}: {e}", "histogram-error")
-        groups = group_keys(case) if case.get("axis") else [()]
-        parts = split_result(case, res, 1 if which == "range" else 2)
+        if b["t"] in ("iv_gap", "iv_overlap"):
+            d = (f"{'range_histogram' if which == 'range' else 'histogram'} accepts interval bins {b['iv']} that are not a gap-free "
+                 f"binning and returns the classes {[str(i) for i in (res.index if which == 'range' else res.index.get_level_values(0).unique())]}: "
+                 f"cycles are counted in classes that were not requested")
+            if not self.known("histogram-interval-bins-not-adjacent", d):
+                return (d, "histogram-interval-bins-not-adjacent")
+            return None
+        if which == "rec":
+            return self._oracle_rec(case, res)
+        groups = group_keys(case)
+        missing = [n for n in group_names(case) if n not in res.index.names]
+        if missing:
+            return (f"the result is not grouped by the level(s) {missing}: index levels {full_names(case)}, axis {case.get('axis')!r} -> "
+                    f"result levels {list(res.index.names)}", "histogram-groups")
+        parts = split_result(case, res)
+        if sum(len(p) for p in parts.values()) != len(res):
+            return (f"the result has {len(res)} rows, only {sum(len(p) for p in parts.values())} of them belong to the groups {groups} "
+                    f"(levels {full_names(case)}, axis {case.get('axis')!r}; result levels {list(res.index.names)})", "histogram-groups")
         for key in groups:
-            rows = rows_of_group(case, key) if case.get("axis") else case["rows"]
+            rows = rows_of_group(case, key)
             w = [r[2] if case.get("cycles") else 1.0 for r in rows]
             sub = parts[key]
             counts = sub.to_numpy(dtype=float)
@@ -930,6 +1421,8 @@ class C14(Prop):
                 edges = edges_of_index(sub.index) if b["t"] == "count" else [float(x) for x in b["e"]]
                 if len(counts) != len(edges) - 1:
                     return (f"group {key}: {len(counts)} classes for {len(edges)} edges", "histogram-shape")
+                if b["t"] != "count" and edges_of_index(sub.index) != edges:
+                    return (f"group {key}: classes labelled {edges_of_index(sub.index)} for the edges {edges}", "histogram-labels")
                 want = [0.0] * (len(edges) - 1)
                 for x, wi in zip(xs, w):
                     c = np_class(edges, x)
@@ -938,19 +1431,17 @@ class C14(Prop):
                 inrange = sum(wi for x, wi in zip(xs, w) if edges[0] <= x <= edges[-1])
                 if b["t"] == "count" and (edges[0] > min(xs) or edges[-1] < max(xs)):
                     return (f"group {key}: automatic edges {edges} do not cover the ranges", "histogram-auto-edges")
+                if b["t"] == "count" and len(edges) != int(b["n"]) + 1:
+                    return (f"group {key}: {len(edges) - 1} classes for bins={b['n']}", "histogram-shape")
             else:
-                if which == "rm":
-                    xs = [abs(r[0] - r[1]) for r in rows]
-                    ys = [(r[0] + r[1]) / 2 for r in rows]
-                else:
-                    xs = [r[0] for r in rows]
-                    ys = [r[1] for r in rows]
+                xs = [abs(r[0] - r[1]) for r in rows]
+                ys = [(r[0] + r[1]) / 2 for r in rows]
+                lx, ly = sub.index.get_level_values("range"), sub.index.get_level_values("mean")
                 if b["t"] == "count":
                     n = int(b["n"])
                     if len(counts) != n * n:
                         return (f"group {key}: {len(counts)} classes for bins={n}", "histogram-shape")
-                    ex = edges_of_index(sub.index.get_level_values(0)[::n])
-                    ey = edges_of_index(sub.index.get_level_values(1)[:n])
+                    ex, ey = edges_of_level(lx), edges_of_level(ly)
                     if ex[0] > min(xs) or ex[-1] < max(xs) or ey[0] > min(ys) or ey[-1] < max(ys):
                         return (f"group {key}: automatic edges do not cover the data", "histogram-auto-edges")
                 else:
@@ -959,6 +1450,9 @@ class C14(Prop):
                 if len(counts) != nx * ny:
                     cls = "histogram-two-edges" if len(ex) == 2 else "histogram-shape"
                     return (f"group {key}: {len(counts)} classes instead of {nx}x{ny} for edges {ex}", cls)
+                labels = [(float(a.left), float(a.right), float(c.left), float(c.right)) for a, c in zip(lx, ly)]
+                if labels != [(ex[i], ex[i + 1], ey[j], ey[j + 1]) for i in range(nx) for j in range(ny)]:
+                    return (f"group {key}: the classes are not the row-major product of the range edges {ex} and the mean edges {ey}", "histogram-labels")
                 want = [0.0] * (nx * ny)
                 for x, y, wi in zip(xs, ys, w):
                     cx, cy = np_class(ex, x), np_class(ey, y)
@@ -998,12 +1492,53 @@ class C14(Prop):
                     rh = (lc.range_histogram(bins, case["axis"]) if case.get("axis") else lc.range_histogram(bins)).to_pandas()
                 except Exception as ex_:
                     return (f"range_histogram raises {type(ex_).__name__}: {ex_}", "histogram-error")
-                rparts = split_result(case, rh, 1)
+                rparts = split_result(case, rh)
                 for key in groups:
                     m2 = parts[key].to_numpy(dtype=float).reshape(len(e) - 1, len(e) - 1).sum(axis=1)
                     r1 = rparts[key].to_numpy(dtype=float)
                     if len(r1) != len(m2) or any(not core.close(float(x), float(y), rtol=1e-9) for x, y in zip(r1, m2)):
                         return (f"group {key}: range histogram {list(r1)} is not the marginal {list(m2)} of the range/mean histogram", "marginal")
+        return None
+
+    def _oracle_rec(self, case, res):
+        """LoopValueRecorder.histogram: from x to matrix of the recorded loops (recorded in one or several chunks)."""
+        b = case["bins"]
+        rows = case["rows"]
+        xs, ys = [r[0] for r in rows], [r[1] for r in rows]
+        lf, lt = res.index.get_level_values("from"), res.index.get_level_values("to")
+        counts = res.to_numpy(dtype=float)
+        ee = self._rec_edges(b)
+        if ee is None:
+            nx, ny = (b["n"], b["n"]) if b["t"] == "count" else (b["nx"], b["ny"])
+            ex, ey = edges_of_level(lf), edges_of_level(lt)
+            if len(ex) != nx + 1 or len(ey) != ny + 1:
+                return (f"recorder histogram: {len(ex) - 1} x {len(ey) - 1} classes for bins=[{nx}, {ny}]", "histogram-shape")
+            if ex[0] > min(xs) or ex[-1] < max(xs) or ey[0] > min(ys) or ey[-1] < max(ys):
+                return (f"recorder histogram: automatic edges from {ex} to {ey} do not cover the recorded loops", "histogram-auto-edges")
+        else:
+            ex, ey = [float(x) for x in ee[0]], [float(x) for x in ee[1]]
+        nx, ny = len(ex) - 1, len(ey) - 1
+        if len(counts) != nx * ny:
+            return (f"recorder histogram: {len(counts)} classes instead of {nx}x{ny}", "histogram-shape")
+        labels = [(float(a.left), float(a.right), float(c.left), float(c.right)) for a, c in zip(lf, lt)]
+        if labels != [(ex[i], ex[i + 1], ey[j], ey[j + 1]) for i in range(nx) for j in range(ny)]:
+            return (f"recorder histogram: the classes are not the row-major product of the from edges {ex} and the to edges {ey}: "
+                    f"first labels {labels[:3]}", "histogram-labels")
+        want = [0.0] * (nx * ny)
+        for x, y in zip(xs, ys):
+            cx, cy = np_class(ex, x), np_class(ey, y)
+            if cx is not None and cy is not None:
+                want[cx * ny + cy] += 1.0
+        inrange = sum(1.0 for x, y in zip(xs, ys) if ex[0] <= x <= ex[-1] and ey[0] <= y <= ey[-1])
+        if not core.close(float(np.sum(counts)), inrange, rtol=1e-9):
+            return (f"recorder histogram: class contents sum to {float(np.sum(counts))}, loops inside the covered range: {inrange}", "histogram-total")
+        for i, (g, wv) in enumerate(zip(counts, want)):
+            if float(g) != wv:
+                return (f"recorder histogram: class {i} holds {g}, numpy's rule on the loops gives {wv}", "histogram-class")
+        # the plain numpy form of the same histogram
+        H, hx_, hy_ = self._recorder(case).histogram_numpy(bins_arg(b))
+        if [float(v) for v in np.asarray(H).ravel()] != [float(v) for v in counts] or [float(v) for v in hx_] != ex or [float(v) for v in hy_] != ey:
+            return ("recorder: histogram_numpy and histogram differ in contents or edges", "histogram-class")
         return None
 
     def _oracle_lh(self, case):
@@ -1013,49 +1548,168 @@ class C14(Prop):
         def q(x):
             return (x.amplitude.to_numpy(float), np.asarray(x.meanstress, dtype=float), x.upper.to_numpy(float),
                     x.lower.to_numpy(float), x.R.to_numpy(float), x.cycles.to_numpy(float))
+
+        def consistent(what, a, mm, u, l, R):
+            for i in range(len(a)):
+                if u[i] - l[i] != 2 * a[i] or (u[i] + l[i]) / 2 != mm[i]:
+                    return (f"{what}class {i}: upper {u[i]} lower {l[i]} amplitude {a[i]} mean {mm[i]} inconsistent", "consistency")
+                want = 0.0 if (u[i] == 0 and l[i] == 0) else (l[i] / u[i] if u[i] != 0 else None)
+                if want is not None and R[i] != want:
+                    return (f"{what}class {i}: R = {R[i]} != lower/upper = {want}", "consistency")
+            return None
+        cls = case["classes"]
         a, mm, u, l, R, c = q(lh)
-        for i in range(len(a)):
-            if u[i] - l[i] != 2 * a[i] or (u[i] + l[i]) / 2 != mm[i]:
-                return (f"class {i}: upper {u[i]} lower {l[i]} amplitude {a[i]} mean {mm[i]} inconsistent", "consistency")
-            want = 0.0 if (u[i] == 0 and l[i] == 0) else (l[i] / u[i] if u[i] != 0 else None)
-            if want is not None and R[i] != want:
-                return (f"class {i}: R = {R[i]} != lower/upper = {want}", "consistency")
+        if len(a) != len(cls):
+            return (f"{len(a)} amplitudes for {len(cls)} classes", "consistency")
+        bad = consistent("", a, mm, u, l, R)
+        if bad:
+            return bad
+        for i, cl in enumerate(cls):
+            if case["t"] == "ft":
+                want_a, want_m = abs((cl[0] + cl[1]) / 2 - (cl[2] + cl[3]) / 2) / 2, ((cl[0] + cl[1]) / 2 + (cl[2] + cl[3]) / 2) / 2
+            else:
+                want_a, want_m = (cl[0] + cl[1]) / 2 / 2, (0.0 if case["t"] == "rm1" else (cl[2] + cl[3]) / 2)
+            if (a[i], mm[i]) != (want_a, want_m):
+                return (f"class {i} {cl}: amplitude/mean ({a[i]}, {mm[i]}), the class mids give ({want_a}, {want_m})", "consistency")
             if c[i] != case["vals"][i]:
                 return (f"class {i}: cycles {c[i]} != content {case['vals'][i]}", "cycles")
         f, d = case["f"], case["d"]
         a2, m2, u2, l2, _, c2 = q(lh.scale(f))
         a3, m3, u3, l3, _, c3 = q(lh.shift(d))
+        if len(a2) != len(a) or len(a3) != len(a):
+            return (f"scale / shift by a scalar changed the number of classes: {len(a)} -> {len(a2)}, {len(a3)}", "equivariance")
         for i in range(len(a)):
             if (a2[i], m2[i]) != (f * a[i], f * mm[i]) or c2[i] != c[i]:
                 return (f"scale({f}): class {i} amplitude/mean/cycles ({a2[i]}, {m2[i]}, {c2[i]}) expected ({f * a[i]}, {f * mm[i]}, {c[i]})", "equivariance")
             if (a3[i], m3[i]) != (a[i], (mm[i] + d) if case["t"] != "rm1" else mm[i]) or c3[i] != c[i]:
                 return (f"shift({d}): class {i} amplitude/mean/cycles ({a3[i]}, {m3[i]}, {c3[i]}) unexpected", "equivariance")
+        ser0 = self._lh_series(case)
+        if not ser.equals(ser0) or not ser.index.equals(ser0.index):
+            return ("scale / shift modified the histogram they were called on", "input-modified")
+        if any(list(x) != list(y) for x, y in zip(q(lh)[:4], (a, mm, u, l))):
+            return ("after scale / shift the original histogram reports other amplitudes / means / upper / lower values", "input-modified")
         if case.get("neg") is not None and any(cl[0] != cl[1] or cl[2] != cl[3] for cl in case["classes"]):
             try:
-                r = lh.scale(case["neg"])
+                r = lh.scale(case["neg"]).to_pandas()
                 # if pandas accepts it the classes must still be consistent
-                if any(iv.left > iv.right for lv in r.to_pandas().index.levels for iv in lv):
-                    return ("scale by a negative factor produced inverted classes", "equivariance")
+                for name in r.index.names:
+                    lv = r.index.get_level_values(name)
+                    if isinstance(lv, pd.IntervalIndex) and any(iv.left > iv.right for iv in lv):
+                        return ("scale by a negative factor produced inverted classes", "equivariance")
             except ValueError:
                 self._count("errors", "lh-negative-scale:ValueError")
+        # a Series operand: every class x every operand entry (row-major), cycles repeated
+        sop = case.get("series")
+        if sop:
+            self._count("operand", "lh:series")
+            ix = pd.Index(sop["index"], name="other")
+            for what, vals in (("scale", sop["f"]), ("shift", sop["d"])):
+                arg = pd.Series(vals, index=ix, dtype=float)
+                r = lh.scale(arg) if what == "scale" else lh.shift(arg)
+                ar, mr, ur, lr, Rr, cr = q(r)
+                if len(ar) != len(a) * len(vals):
+                    return (f"{what} by a Series of {len(vals)} entries: {len(ar)} classes, expected {len(a) * len(vals)}", "equivariance")
+                bad = consistent(f"{what} by a Series: ", ar, mr, ur, lr, Rr)
+                if bad:
+                    return bad
+                k = 0
+                for i in range(len(a)):
+                    for v in vals:
+                        if what == "scale":
+                            want = (v * a[i], v * mm[i])
+                        else:
+                            want = (a[i], mm[i] + v if case["t"] != "rm1" else mm[i])
+                        if (ar[k], mr[k]) != want or cr[k] != c[i]:
+                            return (f"{what} by Series entry {v}: class {i} amplitude/mean/cycles ({ar[k]}, {mr[k]}, {cr[k]}), expected {want + (c[i],)}", "equivariance")
+                        k += 1
+        # class location left / right: the same identities on the class bounds
+        for loc in ("left", "right"):
+            x = self._lh_series(case).load_collective
+            x = x.use_class_left() if loc == "left" else x.use_class_right()
+            al, ml, ul, ll, Rl, cl_ = q(x)
+            bad = consistent(f"use_class_{loc}: ", al, ml, ul, ll, Rl)
+            if bad:
+                return bad
+            j = 0 if loc == "left" else 1
+            for i, cl in enumerate(cls):
+                if case["t"] == "ft":
+                    want = (abs(cl[j] - cl[2 + j]) / 2, (cl[j] + cl[2 + j]) / 2)
+                else:
+                    want = (cl[j] / 2, 0.0 if case["t"] == "rm1" else cl[2 + j])
+                if (al[i], ml[i]) != want or cl_[i] != c[i]:
+                    return (f"use_class_{loc}: class {i} {cl}: amplitude/mean/cycles ({al[i]}, {ml[i]}, {cl_[i]}), expected {want + (c[i],)}", "consistency")
+        # amplitude histogram: the same cycles over amplitude classes
+        ah = lh.amplitude_histogram
+        if list(ah.to_numpy(dtype=float)) != [float(v) for v in case["vals"]]:
+            return (f"amplitude_histogram changed the cycles: {list(ah)} != {case['vals']}", "cycles")
+        if case["t"] != "ft":
+            for i, (iv, cl) in enumerate(zip(ah.index, cls)):
+                if (iv.left, iv.right) != (cl[0] / 2, cl[1] / 2):
+                    return (f"amplitude_histogram: class {i} is {iv}, half of the range class {cl[:2]} expected", "consistency")
+        if case["t"] != "ft":
+            cum = lh.cumulated_range()
+            by_range = {}
+            for cl, v, cv in zip(cls, case["vals"], cum.to_numpy(dtype=float)):
+                k = (cl[0], cl[1])
+                by_range[k] = by_range.get(k, 0.0) + v
+                if cv != by_range[k]:
+                    return (f"cumulated_range: class {cl} has {cv}, the cycles of its range class so far are {by_range[k]}", "cycles")
         return None
 
     def _oracle_rebin(self, case):
         m = mods()
         src = case["src"]
-        h = pd.Series([s[2] for s in src], index=pd.IntervalIndex.from_arrays([s[0] for s in src], [s[1] for s in src]), dtype=float)
+        h = self._rebin_src(case)
         total = float(sum(s[2] for s in src))
+        zero_total = float(sum(s[2] for s in src if s[0] == s[1]))
         t = case["target"]
         lo, hi = min(s[0] for s in src), max(s[1] for s in src)
-        if t["t"] == "count":
+
+        def total_cls(got, what):
+            """Finding for a total that is not conserved.  The documented defect `rebin-zero-width-source` (the content of source
+            classes of zero width vanishes) is recognised by its mechanism: exactly the zero-width content is missing."""
+            if zero_total > 0 and core.close(got, total - zero_total, rtol=1e-9):
+                return (f"{what}: total {got} != {total}: the content {zero_total} of the zero-width source class(es) "
+                        f"{[s for s in src if s[0] == s[1] and s[2]]} is lost", "rebin-zero-width-source")
+            return (f"{what}: total {got} != {total}", "rebin-total")
+
+        if t["t"] == "invalid":
+            ivs = [tuple(x) for x in t["iv"]]
+            if t["what"] == "list":
+                arg, want = [x[0] for x in ivs] + [ivs[-1][1]], TypeError
+            elif t["what"] == "float":
+                arg, want = 2.0, TypeError
+            else:
+                arg, want = pd.IntervalIndex.from_tuples(ivs), ValueError
             try:
-                r = m["rebin"](h, int(t["n"]))
+                r = m["rebin"](h, arg)
+            except (TypeError, ValueError) as e:
+                if isinstance(e, want):
+                    self._count("errors", f"rebin-invalid-{t['what']}:{type(e).__name__}")
+                    return None
+                return (f"rebin_histogram to the invalid binning ({t['what']}) {arg!r} raises {type(e).__name__} instead of {want.__name__}: {e}",
+                        "rebin-invalid-binning")
+            return (f"rebin_histogram accepts the invalid binning ({t['what']}) {arg!r}: total {float(np.nansum(r.to_numpy(dtype=float)))} "
+                    f"of {total}", "rebin-invalid-binning")
+        if t["t"] in ("count", "npcount"):
+            try:
+                r = m["rebin"](h, bins_arg(t))
             except Exception as e:
-                return (f"rebin_histogram(h, {t['n']}) raises {type(e).__name__}: {e}", "rebin-error")
+                cls = "rebin-numpy-integer-count" if t["t"] == "npcount" and isinstance(e, TypeError) else "rebin-error"
+                d = f"rebin_histogram(h, {bins_arg(t)!r}) raises {type(e).__name__}: {e}"
+                if not self.known(cls, d):
+                    return (d, cls)
+                return None
             if len(r) != t["n"]:
                 return (f"rebin_histogram(h, {t['n']}) has {len(r)} classes", "rebin-shape")
+            if t["t"] == "npcount":
+                ri = m["rebin"](h, int(t["n"]))
+                if not ri.index.equals(r.index) or list(ri.to_numpy(dtype=float)) != list(r.to_numpy(dtype=float)):
+                    return (f"rebin_histogram(h, np.int64({t['n']})) differs from rebin_histogram(h, {t['n']})", "rebin-numpy-integer-count")
             if not core.close(float(r.sum()), total, rtol=1e-9):
-                return (f"rebin to {t['n']} classes: total {float(r.sum())} != {total}", "rebin-total")
+                bad = total_cls(float(r.sum()), f"rebin to {t['n']} classes")
+                if not self.known(bad[1], bad[0]):
+                    return bad
             return None
         b = t["b"]
         try:
@@ -1063,14 +1717,38 @@ class C14(Prop):
         except Exception as e:
             cls = "rebin-single-interval" if len(b) == 2 else "rebin-error"
             return (f"rebin_histogram to breaks {b} raises {type(e).__name__}: {e}", cls)
+        h0 = self._rebin_src(case)
+        if not h.equals(h0) or not h.index.equals(h0.index):
+            return ("rebin_histogram modified the histogram it was given", "input-modified")
+        got = r.to_numpy(dtype=float)
+        if len(got) != len(b) - 1 or edges_of_index(r.index) != [float(x) for x in b]:
+            return (f"rebin to breaks {b}: the result has the classes {[str(i) for i in r.index]}", "rebin-shape")
         covered = b[0] <= lo and b[-1] >= hi
-        if covered and not core.close(float(r.sum()), total, rtol=1e-9):
-            return (f"rebin to {b}: total {float(r.sum())} != {total}", "rebin-total")
-        if not covered and float(r.sum()) > total * (1 + 1e-9) + 1e-12:
-            return (f"rebin to a non-covering binning {b} created cycles: {float(r.sum())} > {total}", "rebin-total")
-        if case["src_style"] == "breaks" and b == [s[0] for s in src] + [src[-1][1]]:
-            if any(not core.close(float(x), float(y), rtol=1e-12) for x, y in zip(r.to_numpy(float), [s[2] for s in src])):
-                return (f"rebin to the same binning changed the contents: {list(r)}", "rebin-identity")
+        lost_known = False
+        if covered and not core.close(float(got.sum()), total, rtol=1e-9):
+            bad = total_cls(float(got.sum()), f"rebin to {b}")
+            if not self.known(bad[1], bad[0]):
+                return bad
+            lost_known = True
+        if not covered and float(got.sum()) > total * (1 + 1e-9) + 1e-12:
+            return (f"rebin to a non-covering binning {b} created cycles: {float(got.sum())} > {total}", "rebin-total")
+        # class by class: linear distribution of the classes of positive width, a zero-width class goes where numpy puts its point
+        want = ref_rebin(src, b)
+        sc = max(total, 1.0)
+        if not lost_known and any(abs(float(x) - y) > 1e-9 * sc for x, y in zip(got, want)):
+            d = f"rebin of {src} to {b}: contents {list(got)}, overlap-proportional distribution gives {want}"
+            if zero_total > 0 and all(abs(float(x) - y) <= 1e-9 * sc for x, y in zip(got, ref_rebin([s for s in src if s[0] < s[1]], b))):
+                if not self.known("rebin-zero-width-source", d):
+                    return (d + " (the zero-width source classes are lost)", "rebin-zero-width-source")
+            else:
+                return (d, "rebin-class")
+        same = b == [s[0] for s in src] + [src[-1][1]] and case["src_style"] == "breaks"
+        # identity: numpy only ever fills a zero-width class when it is the last one
+        if same and all(s[0] < s[1] or s[2] == 0 or i == len(src) - 1 for i, s in enumerate(src)):
+            if any(not core.close(float(x), float(y), rtol=1e-12) for x, y in zip(got, [s[2] for s in src])):
+                d = f"rebin to the same binning changed the contents: {list(got)} != {[s[2] for s in src]}"
+                if not (zero_total > 0 and self.known("rebin-zero-width-source", d)):
+                    return (d, "rebin-zero-width-source" if zero_total > 0 and core.close(float(got.sum()), total - zero_total) else "rebin-identity")
         if case.get("target2"):
             c = case["target2"]
             try:
@@ -1078,31 +1756,76 @@ class C14(Prop):
             except Exception as e:
                 cls = "rebin-single-interval" if len(c) == 2 else "rebin-error"
                 return (f"rebin_histogram to breaks {c} raises {type(e).__name__}: {e}", cls)
+            g2 = r2.to_numpy(dtype=float)
             cov2 = covered and c[0] <= b[0] and c[-1] >= b[-1]
-            if cov2 and not core.close(float(r2.sum()), total, rtol=1e-9):
-                return (f"rebin {b} then {c}: total {float(r2.sum())} != {total}", "rebin-total")
+            if cov2 and not lost_known and not core.close(float(g2.sum()), total, rtol=1e-9):
+                bad = total_cls(float(g2.sum()), f"rebin {b} then {c}")
+                if not self.known(bad[1], bad[0]):
+                    return bad
+            positive = all(s[0] < s[1] for s in src) and all(x < y for x, y in zip(b, b[1:]))
             refines = case["src_style"] == "breaks" and covered and all(s[0] in b for s in src) and src[-1][1] in b
-            if refines:
-                self.stats["rebin_refining"] += 1
-                try:
-                    d = m["rebin"](h, pd.IntervalIndex.from_breaks(c))
-                except Exception as e:
-                    return (f"rebin_histogram to breaks {c} raises {type(e).__name__}: {e}", "rebin-error")
-                sc = max(total, 1.0)
-                if any(abs(float(x) - float(y)) > 1e-9 * sc for x, y in zip(r2.to_numpy(float), d.to_numpy(float))):
-                    return (f"A->B->C {list(r2)} != A->C {list(d)} although B={b} refines A", "rebin-compose")
+            coarsens = all(x in b for x in c)
+            try:
+                d = m["rebin"](h, pd.IntervalIndex.from_breaks(c)).to_numpy(dtype=float)
+            except Exception as e:
+                return (f"rebin_histogram to breaks {c} raises {type(e).__name__}: {e}", "rebin-error")
+            differs = any(abs(float(x) - float(y)) > 1e-9 * sc for x, y in zip(g2, d))
+            if positive and (refines or coarsens):
+                self.stats["rebin_refining" if refines else "rebin_coarsening"] += 1
+                if differs:
+                    why = f"B={b} refines A" if refines else f"C={c} coarsens B={b}"
+                    return (f"A->B->C {list(g2)} != A->C {list(d)} although {why}", "rebin-compose")
+            else:
+                # the literal clause 'and composes' (false in general, see rebin_compose_literal_false): how often it fails is recorded
+                self.stats["compose_literal_checked"] += 1
+                self.stats["compose_literal_differs"] += bool(differs)
         return None
 
     def _oracle_rebin2d(self, case):
         m = mods()
         h = self._hist2(case)
-        total = float(h.sum())
+        total = float(np.nansum(h.to_numpy(dtype=float)))
         n1, n2 = case["names"]
+        nd = bool(case.get("nan_default"))
+        cells = [c for c in self._cells(case) if c[4] is not None]
+        kw = {"nan_default": True} if nd else {}
+        if case.get("extra"):
+            # a third, non-interval level: every element is re-binned on its own
+            target, bx, by = self._target2(case)
+            h3 = self._hist3(case)
+            try:
+                r3 = m["rebin"](h3, target)
+            except Exception as e:
+                return (f"rebin_histogram of a histogram with the levels (element_id, {n1}, {n2}) raises {type(e).__name__}: {e}", "rebin2d-extra-level")
+            if sorted(r3.index.get_level_values("element_id").unique()) != sorted(case["extra"]):
+                return (f"rebin with a third level: elements {sorted(r3.index.get_level_values('element_id').unique())} != {sorted(case['extra'])}", "rebin2d-extra-level")
+            for i, e in enumerate(case["extra"]):
+                sub = r3.xs(e, level="element_id")
+                mat = self._matrix2(case, sub.reorder_levels([n1, n2]) if set(sub.index.names) == {n1, n2} else sub, bx, by)
+                ref = self._matrix2(case, m["rebin"](self._hist2(case, float(i + 1)), target), bx, by)
+                if mat is None or ref is None:
+                    return (f"rebin with a third level: element {e} does not have the requested classes", "rebin2d-classes")
+                if any(abs(x - y) > 1e-9 * max(1.0, abs(y)) for x, y in zip(mat, ref)):
+                    return (f"rebin with a third level: element {e} gets {mat}, re-binned on its own {ref}", "rebin2d-extra-level")
+            return None
+        if case["target"]["t"] == "count":
+            n, bx, by = self._target2(case)
+            try:
+                r = m["rebin"](h, n, **kw)
+            except Exception as e:
+                return (f"two-level rebin_histogram(h, {n}) raises {type(e).__name__}: {e}", "rebin2d-error")
+            mat = self._matrix2(case, r, bx, by, approx=True)
+            if mat is None:
+                return (f"two-level rebin_histogram(h, {n}): the result does not have {n} x {n} classes over the extent of the histogram "
+                        f"(got levels {list(r.index.names)}, {len(r)} cells)", "rebin2d-classes")
+            if not core.close(float(np.nansum(mat)), total, rtol=1e-9):
+                return (f"two-level rebin_histogram(h, {n}): total {float(np.nansum(mat))} != {total}", "rebin2d-total")
+            return None
         res = {}
         for order in (["same", "swapped"] if case["target"]["t"] == "multi" else ["plain"]):
             target, bx, by = self._target2(case, order)
             try:
-                r = m["rebin"](h, target)
+                r = m["rebin"](h, target, **kw)
             except Exception as e:
                 return (f"two-level rebin_histogram ({order} level order) raises {type(e).__name__}: {e}", "rebin2d-error")
             mat = self._matrix2(case, r, bx, by)
@@ -1110,17 +1833,36 @@ class C14(Prop):
                 return (f"two-level re-bin ({order} level order of the target): the result does not have the requested classes "
                         f"{n1}: {bx}, {n2}: {by} (got levels {list(r.index.names)}, {len(r)} cells)", "rebin2d-classes")
             covered = bx[0] <= case["ax"][0] and bx[-1] >= case["ax"][-1] and by[0] <= case["ay"][0] and by[-1] >= case["ay"][-1]
-            if covered and not core.close(sum(mat), total, rtol=1e-9):
-                return (f"two-level re-bin ({order} level order of the target) to a covering binning: total {sum(mat)} != {total}", "rebin2d-total")
-            if not covered and sum(mat) > total * (1 + 1e-9) + 1e-12:
-                return (f"two-level re-bin created cycles: {sum(mat)} > {total}", "rebin2d-total")
-            if not case["drop"] and bx == case["ax"] and by == case["ay"]:
+            tot = float(np.nansum(mat))
+            if covered and not core.close(tot, total, rtol=1e-9):
+                zero = sum(c[4] for c in cells if c[0] == c[1] or c[2] == c[3])
+                cls = "rebin-zero-width-source" if zero > 0 and core.close(tot, total - zero, rtol=1e-9) else "rebin2d-total"
+                d = f"two-level re-bin ({order} level order of the target) to a covering binning: total {tot} != {total}"
+                if not self.known(cls, d):
+                    return (d, cls)
+                continue
+            if not covered and tot > total * (1 + 1e-9) + 1e-12:
+                return (f"two-level re-bin created cycles: {tot} > {total}", "rebin2d-total")
+            # cell by cell: product of the shares along the two levels
+            nby = len(by) - 1
+            want = [sum(c[4] * ref_share(bx[i], bx[i + 1], i == len(bx) - 2, c[0], c[1]) * ref_share(by[j], by[j + 1], j == nby - 1, c[2], c[3])
+                        for c in cells) for i in range(len(bx) - 1) for j in range(nby)]
+            sc = max(total, 1.0)
+            for k, (g, w) in enumerate(zip(mat, want)):
+                if g != g:
+                    occupied = any(ref_share(bx[k // nby], bx[k // nby + 1], k // nby == len(bx) - 2, c[0], c[1]) > 0 and
+                                   ref_share(by[k % nby], by[k % nby + 1], k % nby == nby - 1, c[2], c[3]) > 0 for c in cells)
+                    if not nd or occupied and w > 0:
+                        return (f"two-level re-bin (nan_default={nd}): cell {k} is NaN, expected {w}", "rebin-nan-default")
+                elif abs(g - w) > 1e-9 * sc:
+                    return (f"two-level re-bin ({order} level order): cell {k} holds {g}, the product of the per-level shares gives {w}", "rebin2d-class")
+            if not case["drop"] and not case.get("nan") and bx == case["ax"] and by == case["ay"]:
                 if any(not core.close(x, y, rtol=1e-12) for x, y in zip(mat, case["vals"])):
                     return (f"re-bin to the same two-level binning ({order} level order) changed the contents: {mat} != {case['vals']}", "rebin2d-identity")
             res[order] = mat
         if len(res) == 2:
             sc = max(total, 1.0)
-            if any(abs(x - y) > 1e-9 * sc for x, y in zip(res["same"], res["swapped"])):
+            if any(not ((x != x and y != y) or abs(x - y) <= 1e-9 * sc) for x, y in zip(res["same"], res["swapped"])):
                 return (f"the level order of the target changes the result: {res['same']} vs {res['swapped']}", "rebin2d-level-order")
         return None
 
@@ -1134,7 +1876,7 @@ class C14(Prop):
             return NAN
         return {"min": min(v), "max": max(v), "mean": sum(v) / len(v)}[method]
 
-    def _check_combined(self, what, hs, keyed_parts, extract):
+    def _check_combined(self, what, hs, keyed_parts, extract, methods=("sum", "min", "max", "mean")):
         """keyed_parts: per histogram a dict class -> content (NaN allowed); extract(result) -> dict class -> content."""
         m = mods()
         keys = []
@@ -1142,7 +1884,7 @@ class C14(Prop):
             for k in kp:
                 if k not in keys:
                     keys.append(k)
-        for method in ("sum", "min", "max", "mean"):
+        for method in methods:
             try:
                 r = m["combine"](hs, method)
             except Exception as e:
@@ -1163,7 +1905,7 @@ class C14(Prop):
         return None
 
     def _oracle_combine(self, case):
-        hs = [self._series1(h) for h in case["hists"]]
+        hs = self._combine_inputs(case)
         parts = []
         for h in case["hists"]:
             d = {}
@@ -1176,29 +1918,55 @@ class C14(Prop):
             depth = max([len(v) for v in d.values()] + [0])
             for i in range(depth):
                 flat.append({k: v[i] for k, v in d.items() if len(v) > i})
-        return self._check_combined("histograms", hs, flat,
-                                    lambda r: {(iv.left, iv.right): float(v) for iv, v in zip(r.index, r.to_numpy(dtype=float))})
+        res = self._check_combined("histograms" + (f" (dtypes {case['dtypes']})" if case.get("dtypes") else ""), hs, flat,
+                                   lambda r: {(iv.left, iv.right): float(v) for iv, v in zip(r.index, r.to_numpy(dtype=float))})
+        if res is None:
+            for h, h0 in zip(hs, self._combine_inputs(case)):
+                if not h.equals(h0) or not h.index.equals(h0.index) or h.dtype != h0.dtype:
+                    return ("combine_histogram modified a histogram it was given", "input-modified")
+        return res
 
-    def _oracle_combine2d(self, case):
+    @builder
+    def _combine2d_inputs(self, case):
         ax, ay = case["ax"], case["ay"]
         keys = [(ax[i], ax[i + 1], ay[j], ay[j + 1]) for i in range(len(ax) - 1) for j in range(len(ay) - 1)]
         hs, parts = [], []
-        for vals, rev in zip(case["hists"], case["reversed"]):
+        swapped = case.get("swapped") or [False] * len(case["hists"])
+        for vals, rev, sw in zip(case["hists"], case["reversed"], swapped):
             kv = list(zip(keys, [nn(v) for v in vals]))
             if rev:
                 kv.reverse()
             ix = pd.MultiIndex.from_arrays([pd.IntervalIndex.from_arrays([k[0] for k, _ in kv], [k[1] for k, _ in kv]),
                                             pd.IntervalIndex.from_arrays([k[2] for k, _ in kv], [k[3] for k, _ in kv])],
                                            names=case["names"])
-            hs.append(pd.Series([v for _, v in kv], index=ix, dtype=float))
+            s = pd.Series([v for _, v in kv], index=ix, dtype=float)
+            if sw:
+                s = s.reorder_levels(list(reversed(case["names"])))     # the same histogram with its levels in the other order
+            hs.append(s)
             parts.append(dict(kv))
+        return hs, parts
+
+    def _oracle_combine2d(self, case):
+        hs, parts = self._combine2d_inputs(case)
         n1, n2 = case["names"]
 
         def extract(r):
             a, b = r.index.get_level_values(n1), r.index.get_level_values(n2)
             return {(float(xl), float(xr), float(yl), float(yr)): float(v)
                     for xl, xr, yl, yr, v in zip(a.left, a.right, b.left, b.right, r.to_numpy(dtype=float))}
-        return self._check_combined("two-level histograms", hs, parts, extract)
+        swapped = case.get("swapped") or []
+        if any(swapped) and not all(swapped):
+            self._count("bins", "combine2d:mixed-level-order")
+        res = self._check_combined("two-level histograms" + (" (level order differs between the histograms)" if any(swapped) and not all(swapped) else ""),
+                                   hs, parts, extract)
+        if res is not None and res[1] == "combine-class" and any(swapped) and not all(swapped):
+            # recognised by its mechanism: correct when every histogram is given in the same level order
+            same = [h.reorder_levels(case["names"]) for h in hs]
+            if self._check_combined("two-level histograms", same, parts, extract) is None:
+                res = (res[0], "combine-level-order")
+                if self.known(res[1], res[0]):
+                    return None
+        return res
 
     def _oracle_pipe(self, case):
         target = case["target"]
@@ -1207,41 +1975,120 @@ class C14(Prop):
         except Exception as e:
             return (f"rebin to a common binning + combine raises {type(e).__name__}: {e}", "pipe-error")
         keyed = []
+        nt = len(target) - 1
         for h, p in zip(case["parts"], parts):
             vals = p.to_numpy(dtype=float)
+            if len(vals) != nt:
+                return (f"re-bin of {h} to {target}: {len(vals)} classes", "rebin-shape")
             pres = [b for b in h if b[2] is not None]
             covered = target[0] <= h[0][0] and target[-1] >= h[-1][1]
             tot = float(sum(b[2] for b in pres))
+            zero = float(sum(b[2] for b in pres if b[0] == b[1]))
+            lost = False
             if covered and not core.close(float(np.nansum(vals)), tot, rtol=1e-9):
-                return (f"re-bin (nan_default={case['nan_default']}) of {h} to {target}: total {float(np.nansum(vals))} != {tot}", "rebin-total")
+                cls = "rebin-zero-width-source" if zero > 0 and core.close(float(np.nansum(vals)), tot - zero, rtol=1e-9) else "rebin-total"
+                d = f"re-bin (nan_default={case['nan_default']}) of {h} to {target}: total {float(np.nansum(vals))} != {tot}"
+                if not self.known(cls, d):
+                    return (d, cls)
+                lost = True
             for j, v in enumerate(vals):
-                occupied = any(b[0] < target[j + 1] and target[j] < b[1] for b in pres)
+                occupied = any(ref_share(target[j], target[j + 1], j == nt - 1, b[0], b[1]) > 0 or
+                               (b[0] < b[1] and b[0] < target[j + 1] and target[j] < b[1]) for b in pres)
                 unocc_ok = (v != v) if case["nan_default"] else (v == 0.0)
-                if (not occupied and not unocc_ok) or (occupied and v != v):
+                if not lost and ((not occupied and not unocc_ok) or (occupied and v != v)):
                     return (f"re-bin (nan_default={case['nan_default']}): class ({target[j]}, {target[j + 1]}] holds {v}; "
                             f"occupied by a source class with a value: {occupied}", "rebin-nan-default")
             keyed.append({(target[j], target[j + 1]): float(v) for j, v in enumerate(vals)})
         return self._check_combined("re-binned histograms", parts, keyed,
                                     lambda r: {(iv.left, iv.right): float(v) for iv, v in zip(r.index, r.to_numpy(dtype=float))})
 
+    def _oracle_chain(self, case):
+        """collective -> range_histogram(own edges) -> re-bin to the common binning -> combine by sum."""
+        target = [float(x) for x in case["target"]]
+        try:
+            hs, rb, comb = self._run_chain(case)
+        except Exception as e:
+            return (f"range_histogram -> rebin_histogram -> combine_histogram raises {type(e).__name__}: {e}", "chain-error")
+        parts = self._chain_parts(case)
+        grand, all_cov, keyed = 0.0, True, []
+        lost = False
+        for p, h, r in zip(parts, hs, rb):
+            e = [float(x) for x in p["e"]]
+            xs = [abs(x[0] - x[1]) for x in p["rows"]]
+            w = [x[2] if p.get("cycles") else 1.0 for x in p["rows"]]
+            want = [0.0] * (len(e) - 1)
+            for x, wi in zip(xs, w):
+                c = np_class(e, x)
+                if c is not None:
+                    want[c] += wi
+            hv = h.to_numpy(dtype=float)
+            if len(hv) != len(want) or any(float(g) != wv for g, wv in zip(hv, want)):
+                return (f"range_histogram({e}) of the ranges {xs} (cycles {w}) gives {list(hv)}, numpy's rule gives {want}", "histogram-class")
+            inrange = sum(wi for x, wi in zip(xs, w) if e[0] <= x <= e[-1])
+            grand += inrange
+            covered = target[0] <= e[0] and target[-1] >= e[-1]
+            all_cov = all_cov and covered
+            rv = r.to_numpy(dtype=float)
+            rcls = [(float(iv.left), float(iv.right)) for iv in r.index]
+            if p.get("rebin", True):
+                if rcls != list(zip(target, target[1:])):
+                    return (f"re-bin of range_histogram({e}) to {target}: classes {rcls}", "rebin-shape")
+                src = [[e[i], e[i + 1], want[i]] for i in range(len(want))]
+                ref = ref_rebin(src, target)
+                zero = sum(s[2] for s in src if s[0] == s[1])
+                sc = max(sum(want), 1.0)
+                if any(abs(float(g) - y) > 1e-9 * sc for g, y in zip(rv, ref)):
+                    d = (f"range_histogram({e}) = {want} re-binned to {target}: {list(rv)}, the overlap-proportional distribution "
+                         f"(zero-width class = point) gives {ref}")
+                    if zero > 0 and all(abs(float(g) - y) <= 1e-9 * sc for g, y in zip(rv, ref_rebin([s for s in src if s[0] < s[1]], target))):
+                        if not self.known("rebin-zero-width-source", d):
+                            return (d + f": the {zero} cycles of the zero-width class are lost", "rebin-zero-width-source")
+                        lost = True
+                    else:
+                        return (d, "rebin-class")
+                if covered and not lost and not core.close(float(rv.sum()), inrange, rtol=1e-9):
+                    return (f"range_histogram({e}) re-binned to the covering binning {target}: total {float(rv.sum())} != cycles in range {inrange}", "rebin-total")
+            d = {}
+            for kcls, v in zip(rcls, rv):
+                d.setdefault(kcls, []).append(float(v))
+            depth = max(len(v) for v in d.values())
+            for i in range(depth):
+                keyed.append({k: v[i] for k, v in d.items() if len(v) > i})
+        res = self._check_combined(f"histograms of the pipeline (dtypes {[str(r.dtype) for r in rb]})", rb, keyed,
+                                   lambda r: {(float(iv.left), float(iv.right)): float(v) for iv, v in zip(r.index, r.to_numpy(dtype=float))},
+                                   methods=("sum",))
+        if res is not None:
+            return res
+        if all_cov and not lost and not core.close(float(comb.to_numpy(dtype=float).sum()), grand, rtol=1e-9):
+            return (f"collectives -> histograms -> common binning {target} -> combined: grand total {float(comb.sum())} != cycles in range {grand}", "chain-total")
+        return None
+
     # -------------------------------------------------------------- shrinking
     def shrink(self, case, still_fails):
         cur = json.loads(json.dumps(case))
         key = {"coll": "rows", "hist": "rows", "rebin": "src", "lh": "classes", "pipe": "parts", "combine": "hists",
-               "combine2d": "hists"}.get(cur["kind"])
-        if cur["kind"] in ("coll", "hist") and cur.get("idx"):
-            pass
+               "combine2d": "hists", "chain": "parts"}.get(cur["kind"])
         if key is None:
             return cur
+        if cur["kind"] == "hist" and cur.get("chunks"):
+            cand = json.loads(json.dumps(cur))
+            del cand["chunks"]
+            try:
+                if still_fails(cand):
+                    cur = cand
+            except Exception:
+                pass
         changed = True
         while changed and len(cur[key]) > 1:
             changed = False
             for i in range(len(cur[key])):
                 cand = json.loads(json.dumps(cur))
                 del cand[key][i]
-                for par in ("keys", "vals", "idx", "reversed"):
+                for par in ("keys", "vals", "idx", "reversed", "swapped", "dtypes"):
                     if cand.get(par):
                         del cand[par][i]
+                if cand.get("chunks"):
+                    del cand["chunks"]
                 try:
                     if still_fails(cand):
                         cur = cand
